@@ -21,25 +21,28 @@ is/hail/expr/ir/Parser.scala and is/hail/utils/StringEscapeUtils.scala; nothing 
   R6  engine type syntax: the keyword of every `_parsable_string` template has an arm in IRParser.type_expr, whose body consumes
       the punctuation the template prints.
   R7  hl.dtype returns the parse of ITS OWN argument (abstract data flow over dtype and the helpers it calls, across modules): every
-      return is visit(parse(T(arg))) with T the identity or a transformation the GRAMMAR makes harmless (strip(): the start rule begins and
-      ends with a greedy whitespace terminal covering what is stripped), or a read of a memo container whose key K(arg) is injective with
-      respect to the parse (closed table: the argument, tuples / str() / constant affixes of it, strip) and that is only written with the
-      value parsed from the same text under the same key; functools caches are keyed by the argument itself.  For other key / input
-      transformations the expression is EVALUATED on the printed forms of the sample types: a collision of two texts that denote different
-      types (replayed through dtype in a fresh modelled process) is reported with the concrete history; no collision -> decline.  The
-      visitor class keeps no state; a printer that remembers its text only reads attributes fixed at construction.
-  R8  semantic round trip by evaluation (engines/pyconc.py, our own evaluator; the repository is parsed, never run): sample instances of
-      every HailType class (constructor argument kinds from the typecheck decorator; field / genome names from a battery of colliding and
-      hostile names; nested positions) are printed with the interpreted `__str__` / `pretty`, parsed by the interpreted hl.dtype (grammar:
-      peglite; parsimonious node shapes and NodeVisitor.visit modelled) and compared with the interpreted `==`; in two modelled processes
-      (sample order / reverse order) so that a result that depends on earlier calls shows.
-  R9  the engine reading: IRLexer.token and IRParser.type_expr (arm scripts: punctuation / identifier / int32_literal / type_expr /
-      repsepUntil / struct_field, extracted fail-closed) are run on `_parsable_string()` of every sample; the text must be consumed in full
-      and yield the same constructor structure, names (after unescapeString) and dimensions as the Python grammar reads from `str()`;
-      constructor arguments of each arm in reading order.
-Does not decide: equality beyond the sampled instances (R4/R8/R9 sample; R1/R2/R5/R7 are exhaustive over their domains); tvariable;
-parsimonious >= 0.10 matches regex terminals with the third-party `regex` module (not installed here) whose \\w differs from `re` for
-a few code points - `re` semantics are assumed.
+      return is classified as visit(parse(T(arg))) or as a read of a memo container under a key K(arg); memo idioms: dict get / in /
+      [] / try-except / setdefault / walrus, function attributes, mutable defaults, functools caches (decorator and call form, keyed by the
+      argument itself).  T and K are decided from a CLOSED TABLE of expression shapes, nothing is evaluated: the argument, tuples / str()
+      / constant affixes / plain encode of it -> injective; strip / lstrip / rstrip -> decided from the grammar (the start rule begins and
+      ends with a greedy one-class terminal covering what is stripped); lower / upper / casefold / title / replace / translate / split+join /
+      slicing / unicodedata.normalize / re.sub / pattern.sub / checksums / encode with an error handler -> lossy with respect to names
+      (violation, with the witness class of the table entry); anything else -> decline.  A memo may only be written under the same key with
+      the value parsed from the same text.  The visitor class keeps no state; a printer that remembers its text only reads attributes that
+      are never reassigned after construction.
+  R8  the visitor as a data path: in every visit method of a sequence rule each value-carrying member (a member that contains a rule with a
+      visitor) is bound by the tuple unpacking, is used, reaches the constructor without a reordering / truncating / filtering / string-
+      normalising operation (closed table) and in reading order; `__str__` shows the constructor parameters in parameter order (holes of
+      the template traced through properties and `__init__` assignments).  Together: printed order = parameter order = reading order.
+  R9  sibling agreement printer <-> engine parser, constructor by constructor: the `_parsable_string` template, turned into the token
+      kinds IRLexer produces (keyword, punctuation, child type, name, number, joined list), is consumed exactly by the script of its arm in
+      IRParser.type_expr (punctuation / identifier / int32_literal / type_expr / repsepUntil / struct_field, extracted fail-closed); `__str__`
+      and `_parsable_string` show the same members in the same order; each arm passes what it reads to the engine constructor in reading
+      order.
+Does not decide: equality of parsed and printed types beyond class, member order and arity (R4 instantiates templates with sample
+children and names); visitors with keyword arguments or unrecognised operations (decline); tvariable; parsimonious >= 0.10 matches regex
+terminals with the third-party `regex` module (not installed here) whose \\w differs from `re` for a few code points - `re` semantics
+are assumed.
 """
 from __future__ import annotations
 
@@ -52,7 +55,6 @@ import unicodedata
 from typing import Any, Dict, List, Optional, Sequence, Tuple
 
 from engines import peglite as P
-from engines import pyconc as C
 from engines import pyfacts as pf
 from engines import relang as R
 from engines import scalalite as S
@@ -65,17 +67,18 @@ META = dict(
          'regular languages over all Unicode code points (inclusions by DFA product with shortest witnesses, per escape-unit kind); '
          'the print/parse round trip is decided per type class by interpreting the grammar text with our own PEG interpreter on '
          'instantiated print templates (structural induction over the type constructors, sampled field names); hl.dtype is decided by abstract '
-         'data flow (its result is the parse of its own argument; memo keys injective with respect to the parse, lossy keys shown by a concrete '
-         'colliding history); printers, dtype, the visitor and the engine parser are evaluated / modelled on sample types of every class. '
-         'Sampling of field names and children in R4/R8/R9 keeps the level at other.',
+         'data flow (its result is the parse of its own argument; memo keys classified by a closed table of injective / grammar-neutral / lossy '
+         'shapes); the visitor is checked as a data path (every value-carrying member reaches the constructor unaltered, in reading order) and '
+         'printer templates are matched symbolically against the token-reading scripts of the engine parser arms. '
+         'Sampling of field names and children in R4 keeps the level at other.',
     note='Trusted: CPython ast/re._parser, the unicode_escape codec and str predicates of the running interpreter, '
          'Character.isJavaIdentifierStart/Part of the installed JDK (fallback: unicodedata categories), the definition of '
-         'scala-parser-combinators JavaTokenParsers.ident, engines/relang.py, peglite.py, scalalite.py, strpred.py, pyconc.py (our evaluator of a '
-         'Python subset), the models of parsimonious Grammar / NodeVisitor and of the reference-genome registry. Assumes regex '
+         'scala-parser-combinators JavaTokenParsers.ident, engines/relang.py, peglite.py, scalalite.py, strpred.py; the closed tables of injective / lossy '
+         'string operations and of order-preserving visitor operations. Assumes regex '
          'terminals of the grammar follow stdlib `re` semantics.',
     technique='static analysis: regular-language inclusion over a Unicode partition, symbolic evaluation of escapers into unit tables, '
               'PEG interpretation of the extracted grammar text, fail-closed Scala fragment extraction, inter-procedural abstract data flow, '
-              'concrete evaluation of extracted syntax trees with our own interpreter',
+              'symbolic matching of printer templates against parser scripts',
     design_ref='DESIGN.md §3 C31',
 )
 
@@ -952,423 +955,18 @@ def _visitor_class(ctx: Ctx, mg: pf.Module, mt: pf.Module, classes: Dict[str, as
 
 
 # --------------------------------------------------------------------------------------
-# concrete evaluation of the printers, hl.dtype and the visitor on sample types (engines/pyconc.py)
-# --------------------------------------------------------------------------------------
-
-
-class _RG(C.ExtObj):
-    """Model of a registered ReferenceGenome: identified by its name; str(rg) == rg.name == the registered name."""
-    kind = 'ReferenceGenome'
-
-    def __init__(self, name: str):
-        self.name = name
-
-    def py_getattr(self, it, n):
-        if n == 'name':
-            return self.name
-        raise C.Unsupported(f'ReferenceGenome.{n} is not modelled')
-
-    def py_str(self, it):
-        return self.name
-
-    def py_eq(self, it, o):
-        return isinstance(o, _RG) and o.name == self.name
-
-
-class _PNodeV(C.ExtObj):
-    kind = 'parsimonious.Node'
-
-    def __init__(self, n: P.PNode):
-        self.n = n
-        self.kids: Optional[List['_PNodeV']] = None
-
-    def children(self) -> List['_PNodeV']:
-        if self.kids is None:
-            self.kids = [_PNodeV(c) for c in self.n.children]
-        return self.kids
-
-    def py_getattr(self, it, a):
-        if a == 'text':
-            return self.n.text
-        if a == 'expr_name':
-            return self.n.expr_name
-        if a == 'children':
-            return self.children()
-        if a in ('start', 'end', 'full_text'):
-            return getattr(self.n, a)
-        raise C.Unsupported(f'parsimonious Node.{a} is not modelled')
-
-    def py_iter(self, it):
-        return list(self.children())
-
-
-class _GrammarV(C.ExtObj):
-    kind = 'parsimonious.Grammar'
-    _parsed: Dict[str, P.Grammar] = {}
-
-    def __init__(self, text: Any):
-        if not isinstance(text, str):
-            raise C.Unsupported('Grammar(<non-string>)')
-        g = _GrammarV._parsed.get(text)
-        if g is None:
-            g = P.parse_grammar(text, 'Grammar(...)')
-            _GrammarV._parsed[text] = g
-        self.g = g
-
-    def py_getattr(self, it, a):
-        if a == 'parse':
-            def parse(it2, args, kw):
-                if len(args) != 1 or kw or not isinstance(args[0], str):
-                    raise C.Unsupported('Grammar.parse arguments')
-                try:
-                    return _PNodeV(P.parsimonious_tree(self.g, args[0]))
-                except P.ParseFailure as e:
-                    raise C.PyRaise('ParseError', (str(e),)) from None
-            return C.Builtin('Grammar.parse', parse)
-        raise C.Unsupported(f'parsimonious Grammar.{a} is not modelled')
-
-
-def _nv_visit(it, inst, args, kw):
-    """parsimonious NodeVisitor.visit: method visit_<expr_name> (else generic_visit) applied to (node, [visit(child) ...])."""
-    if len(args) != 1 or kw or not isinstance(args[0], _PNodeV):
-        raise C.Unsupported('NodeVisitor.visit arguments')
-    node = args[0]
-    try:
-        m = it.getattr(inst, 'visit_' + node.n.expr_name)
-    except C.PyRaise as r:
-        if r.name != 'AttributeError':
-            raise
-        m = it.getattr(inst, 'generic_visit')
-    return it.call(m, [node, [_nv_visit(it, inst, [c], {}) for c in node.children()]])
-
-
-def _nv_generic(it, inst, args, kw):
-    raise C.PyRaise('NotImplementedError', ('NodeVisitor.generic_visit',))
-
-
-class _HailNS(C.ExtObj):
-    """`import hail as hl`: names defined in hail/expr/types.py are re-exported by the package; the reference registry is modelled."""
-    kind = 'hail'
-
-    def py_getattr(self, it, a):
-        if a == 'default_reference':
-            return C.Builtin('default_reference', lambda it2, a2, k2: _RG('GRCh37'))
-        if a == 'get_reference':
-            return C.Builtin('get_reference', lambda it2, a2, k2: _co_rg(it2, a2[0]))
-        return it.global_lookup(it.module(F_TYPES), a)
-
-
-def _co_rg(it, v):
-    if isinstance(v, str):
-        return _RG('GRCh37' if v == 'default' else v)
-    return v
-
-
-def _co_hail_type(it, v):
-    if isinstance(v, str):
-        return it.call(it.global_lookup(it.module(F_TYPES), 'dtype'), [v])
-    return v
-
-
-class Session:
-    """One modelled Python process: module-level state of the interpreted modules (caches!) lives as long as the session."""
-
-    def __init__(self):
-        self.it = C.Interp(
-            externals={'parsimonious.Grammar': C.Builtin('Grammar', lambda it, a, k: _GrammarV(a[0] if a else None)), 'hail': _HailNS()},
-            package_roots={'hail': 'hail/python/hail', 'hailtop': 'hail/python/hailtop'},
-            coercers={'reference_genome_type': _co_rg, 'hail_type': _co_hail_type},
-            ext_class_methods={'parsimonious.NodeVisitor': {'visit': _nv_visit, 'generic_visit': _nv_generic, '__init__': lambda it, o, a, k: None}})
-
-    def expr(self, src: str, **variables: Any) -> Any:
-        return self.it.eval_src(F_TYPES, src, variables)
-
-    def dtype(self, s: str) -> Any:
-        return self.it.call(self.it.global_lookup(self.it.module(F_TYPES), 'dtype'), [s])
-
-    def try_dtype(self, s: str) -> Tuple[Any, Optional[str]]:
-        try:
-            return self.dtype(s), None
-        except C.PyRaise as r:
-            return None, f'{r.name}{r.pargs!r}'[:200]
-
-    def show(self, t: Any) -> str:
-        try:
-            return self.it.to_str(t) if isinstance(t, (C.Inst, C.ExtObj)) else repr(t)
-        except (C.PyRaise, AnalysisError):
-            return repr(t)
-
-
-_NAME_BATTERY = ['a', 'x_1', 'a b', 'a  b', ' a b', 'a b ', 'A b', 'ab', 'AB', 'a-b', 'a - b', '`', '\\', '\xe9', '\xc9', '1a', '', '\n', '\U0001f600', 'int32',
-                 'a:b', '}', "it's", 'tab\there', 'a.b', '"', 'struct', '\ufb01', 'fi', 'a\ufb01', 'afi', 'a\xa0b', '_x', 'a\xe9', 'a\xc9']
-
-
-class Samples:
-    """Sample instances of every HailType class that has its own `__str__`, built through the interpreted constructors.  The
-    argument kinds of a constructor are read off its typecheck decorator."""
-
-    def __init__(self, ctx: Ctx, ses: Session, mt: pf.Module, classes: Dict[str, ast.ClassDef]):
-        self.ses = ses
-        self.by_class: Dict[str, List[Tuple[str, Any]]] = {}
-        self.skipped: List[str] = []
-        it = ses.it
-        pool_src = ['tint32', 'tstr', 'tarray(tfloat64)', "tstruct(**{'a b': tbool})", 'tint64']
-        try:
-            pool = [(src, ses.expr(src)) for src in pool_src]
-        except C.PyRaise as r:
-            raise AnalysisError(f'{F_TYPES}: cannot build the sample children {pool_src}: {r}') from None
-        rgs = [(repr(n), _RG(n)) for n in ('GRCh38', 'my genome', '1kg`x', 'é', 'GRCh37', ' padded ', 'grch38')]
-        nats = [('2', 2), ('0', 0), ('11', 11)]
-        for cname, c in classes.items():
-            if _method(c, '__str__') is None:
-                continue
-            init = None
-            for k in self._chain(classes, c):
-                init = _method(k, '__init__')
-                if init is not None:
-                    break
-            kinds = self._kinds(init)
-            if kinds is None:
-                self.skipped.append(cname)
-                continue
-            cref = it.global_lookup(it.module(F_TYPES), cname)
-            combos: List[Tuple[str, list, dict]] = []
-            if not kinds:
-                combos.append(('', [], {}))
-            elif kinds == ['TYPES']:
-                for sel in ([], [0], [1, 0, 2], [0, 0], [3, 4]):
-                    combos.append((', '.join(pool[i][0] for i in sel), [pool[i][1] for i in sel], {}))
-            elif kinds == ['FIELDS']:
-                combos.append(('', [], {}))
-                for i, n in enumerate(_NAME_BATTERY):
-                    combos.append((f'**{{{n!r}: {pool[0][0]}}}', [], {n: pool[0][1]}))
-                multi = [['b', 'a', 'c c'], ['z', 'A', 'a', '`'], ['x', 'a b', 'a  b']]
-                for names in multi:
-                    combos.append(('**{' + ', '.join(f'{n!r}: {pool[j % len(pool)][0]}' for j, n in enumerate(names)) + '}', [],
-                                   {n: pool[j % len(pool)][1] for j, n in enumerate(names)}))
-                long_fields = {f'f{j}': pool[j % 2][1] for j in range(24)}
-                combos.append(('**{f0..f23, last: tint32}', [], {**long_fields, 'last': pool[0][1]}))
-                combos.append(('**{f0..f23, last: tstr}', [], {**long_fields, 'last': pool[1][1]}))
-            else:
-                per: List[List[Tuple[str, Any]]] = []
-                ti = 0
-                for kd in kinds:
-                    if kd == 'TYPE':
-                        per.append([pool[(ti + j) % len(pool)] for j in (0, 2, 1, 3)])
-                        ti += 1
-                    elif kd == 'RG':
-                        per.append(rgs)
-                    elif kd == 'NAT':
-                        per.append(nats)
-                    else:
-                        per = []
-                        break
-                if not per:
-                    self.skipped.append(cname)
-                    continue
-                n = max(len(x) for x in per)
-                for i in range(n):
-                    pick = [x[i % len(x)] for x in per]
-                    combos.append((', '.join(p[0] for p in pick), [p[1] for p in pick], {}))
-            out = []
-            for desc, args, kwargs in combos:
-                try:
-                    out.append((f'{cname}({desc})', it.call(cref, list(args), dict(kwargs))))
-                except C.PyRaise as r:
-                    raise AnalysisError(f'{F_TYPES}: the sample {cname}({desc}) cannot be constructed: {r}') from None
-            self.by_class[cname] = out
-        # nested positions: the most demanding samples once more inside containers
-        nest = []
-        for cname in ('tstruct', 'tlocus', 'ttuple'):
-            for desc, t in self.by_class.get(cname, [])[:(14 if cname == 'tstruct' else 4)]:
-                nest.append((desc, t))
-        self.nested: List[Tuple[str, Any]] = []
-        for i, (desc, t) in enumerate(nest):
-            wrap = ('tarray(T)', 'tdict(tstr, T)', 'ttuple(tint32, T)', "tstruct(**{'k': tint32, 'v v': T})")[i % 4]
-            try:
-                self.nested.append((wrap.replace('T', desc), ses.expr(wrap, T=t)))
-            except C.PyRaise as r:
-                raise AnalysisError(f'{F_TYPES}: the sample {wrap} cannot be constructed: {r}') from None
-
-    @staticmethod
-    def _chain(classes: Dict[str, ast.ClassDef], c: ast.ClassDef) -> List[ast.ClassDef]:
-        out = [c]
-        for b in c.bases:
-            d = pf.dotted(b)
-            if d in classes:
-                out += Samples._chain(classes, classes[d])
-        return out
-
-    @staticmethod
-    def _kinds(init: Optional[ast.FunctionDef]) -> Optional[List[str]]:
-        if init is None:
-            return []
-        a = init.args
-        params = [x.arg for x in a.posonlyargs + a.args]
-        chk: Dict[str, str] = {}
-        for d in init.decorator_list:
-            if isinstance(d, ast.Call) and (pf.dotted(d.func) or '').split('.')[-1] in ('typecheck_method', 'typecheck'):
-                for k in d.keywords:
-                    if k.arg:
-                        chk[k.arg] = pf.nsrc(k.value)
-
-        def kind(src: Optional[str]) -> Optional[str]:
-            if src == 'hail_type':
-                return 'TYPE'
-            if src in ('reference_genome_type', 'nullable(reference_genome_type)'):
-                return 'RG'
-            if src in ('oneof(NatBase, int)', 'oneof(int, NatBase)', 'int'):
-                return 'NAT'
-            return None
-        if a.kwonlyargs:
-            return None
-        if a.vararg is not None and a.kwarg is not None and not params and chk.get(a.kwarg.arg) == 'hail_type':
-            return ['FIELDS']  # tstruct: __init__(*args, **field_types) with self = args[0]
-        if a.kwarg is not None:
-            if params == ['self'] and a.vararg is None and chk.get(a.kwarg.arg) == 'hail_type':
-                return ['FIELDS']
-            return None
-        if a.vararg is not None:
-            if params == ['self'] and chk.get(a.vararg.arg) == 'hail_type':
-                return ['TYPES']
-            return None
-        out = []
-        for p_ in params[1:]:
-            k = kind(chk.get(p_))
-            if k is None:
-                return None
-            out.append(k)
-        return out
-
-    def all(self) -> List[Tuple[str, str, Any]]:
-        out = [(cname, desc, t) for cname, lst in self.by_class.items() for desc, t in lst]
-        out += [('nested', desc, t) for desc, t in self.nested]
-        return out
-
-
-def struct_equal(it: C.Interp, a: Any, b: Any, depth: int = 0) -> bool:
-    """Attribute-wise equality of two interpreted objects (stronger than any `_eq`); caches (`_context`) are ignored."""
-    if depth > 12:
-        return False
-    if isinstance(a, C.Inst) and isinstance(b, C.Inst):
-        if a.cls is not b.cls and (a.cls.mod.rel, a.cls.name) != (b.cls.mod.rel, b.cls.name):
-            return False
-        ka = {k for k in a.attrs if k not in ('_context',)}
-        kb = {k for k in b.attrs if k not in ('_context',)}
-        return ka == kb and all(struct_equal(it, a.attrs[k], b.attrs[k], depth + 1) for k in ka)
-    if isinstance(a, C.ExtObj) or isinstance(b, C.ExtObj):
-        return isinstance(a, C.ExtObj) and a.py_eq(it, b)
-    if isinstance(a, (list, tuple)) and type(a) is type(b):
-        return len(a) == len(b) and all(struct_equal(it, x, y, depth + 1) for x, y in zip(a, b))
-    if isinstance(a, dict) and isinstance(b, dict):
-        return list(a.keys()) == list(b.keys()) and all(struct_equal(it, a[k], b[k], depth + 1) for k in a)
-    if isinstance(a, (C.Inst, list, tuple, dict)) or isinstance(b, (C.Inst, list, tuple, dict)):
-        return False
-    try:
-        return type(a) is type(b) and a == b
-    except Exception:  # noqa: BLE001
-        return a is b
-
-
-def types_equal(ses: Session, t: Any, t2: Any) -> bool:
-    """`t == t2` as the repository defines it (interpreted HailType.__eq__ / _eq); attribute-wise equality when `_eq` is outside the
-    evaluator's subset."""
-    try:
-        return bool(ses.it.py_eq(t, t2))
-    except C.Unsupported:
-        if struct_equal(ses.it, t, t2):
-            return True
-        raise
-
-
-def _same_as(ses_a: Session, ses_b: Session, ta: Any, tb: Any) -> bool:
-    """Cross-process comparison: an object of process a against an object of process b (classes are compared by name)."""
-    return struct_equal(ses_a.it, ta, tb)
-
-
-PRINTERS = (('__str__', 'str(t)', 'str(t)'), ('pretty', 't.pretty()', 't.pretty()'))
-
-
-def check_round_trip(ctx: Ctx, mt: pf.Module, classes: Dict[str, ast.ClassDef], ses: Session, sm: Samples) -> None:
-    """R8: for every sample type t and every printer, dtype(<printed t>) == t, evaluated with our interpreter on the printers, dtype,
-    the grammar text (peglite) and the visitor; once in sample order and once in reverse order in a second modelled process."""
-    for cname in sm.skipped:
-        ctx.info(f'{cname}: constructor arguments are not described by a typecheck decorator we can sample; print/parse round trip of {cname} not evaluated')
-    allsamples = sm.all()
-    ctx.unit('sample_types', len(allsamples))
-    printed: List[Tuple[str, str, str, Any, str, str]] = []  # (cname, printer, desc, t, text, how)
-    for cname, desc, t in allsamples:
-        for pname, src, how in PRINTERS:
-            try:
-                text = ses.expr(src, t=t)
-            except C.PyRaise as r:
-                ctx.bad('R8', f'{F_TYPES}::{cname}.{pname}::prints', f'{how} raises {r.name}{r.pargs!r} for t = {desc}', mt.path,
-                        classes[cname].lineno if cname in classes else 0)
-                continue
-            if not isinstance(text, str):
-                raise AnalysisError(f'{F_TYPES}::{cname}.{pname}: printed form of {desc} is not a string')
-            printed.append((cname, pname, desc, t, text, how))
-    failures: Dict[Tuple[str, str], str] = {}
-    counts: Dict[Tuple[str, str], int] = {}
-    bad_a = set()
-    res_a: Dict[int, Any] = {}
-    seen_a: Dict[str, Tuple[Any, Optional[str]]] = {}
-    seen_b: Dict[str, Tuple[Any, Optional[str]]] = {}
-    for i, (cname, pname, desc, t, text, how) in enumerate(printed):
-        key = (cname, pname)
-        counts[key] = counts.get(key, 0) + 1
-        if text in seen_a:
-            t2, err = seen_a[text]
-        else:
-            t2, err = ses.try_dtype(text)
-            seen_a[text] = (t2, err)
-        ok = err is None and types_equal(ses, t, t2)
-        res_a[i] = t2
-        if not ok:
-            bad_a.add(i)
-            if key not in failures:
-                # the same string alone, in a fresh modelled process
-                fresh = Session()
-                f2, ferr = fresh.try_dtype(text)
-                alone_ok = ferr is None and _same_as(ses, fresh, t, f2)
-                got = f'raises {err}' if err is not None else f'returns {ascii(ses.show(t2))}'
-                if alone_ok:
-                    failures[key] = (f'for t = {desc}, {how} = {ascii(text)} and hl.dtype of it {got} when the earlier sample strings have been parsed in the same '
-                                     f'process, although it returns t when parsed first: the result of dtype depends on the history of earlier calls')
-                else:
-                    failures[key] = f'for t = {desc}, {how} = {ascii(text)} and hl.dtype of it {got}, which is not equal to t'
-    # second modelled process, reverse order: results must not depend on what was parsed before
-    ses_b = Session()
-    for i in range(len(printed) - 1, -1, -1):
-        cname, pname, desc, t, text, how = printed[i]
-        if i in bad_a:
-            continue
-        if text in seen_b:
-            t2, err = seen_b[text]
-        else:
-            t2, err = ses_b.try_dtype(text)
-            seen_b[text] = (t2, err)
-        ok = err is None and struct_equal(ses_b.it, res_a[i], t2)
-        if not ok and (cname, pname) not in failures:
-            got = f'raises {err}' if err is not None else f'returns {ascii(ses_b.show(t2))}'
-            failures[(cname, pname)] = (f'for t = {desc}, {how} = {ascii(text)}; hl.dtype of it returns t when the samples are parsed in one order, but {got} '
-                                        f'when they are parsed in the reverse order in a fresh process: the result of dtype depends on the history of earlier calls')
-    for key, n in counts.items():
-        cname, pname = key
-        cons = f'{F_TYPES}::{cname}.{pname}::dtype({"str(t)" if pname == "__str__" else "t.pretty()"}) == t'
-        line = classes[cname].lineno if cname in classes else 0
-        ctx.check(key not in failures, 'R8', cons, failures.get(key, ''), mt.path, line, detail={'samples': n})
-    ctx.unit('round_trips_evaluated', 2 * len(printed))
-
-
-
-# --------------------------------------------------------------------------------------
 # R7: what hl.dtype returns is a function of the parse of ITS OWN argument (abstract data flow over dtype and its helpers)
 # --------------------------------------------------------------------------------------
 
 ARG = '__ARG__'
-_PURE_STR_METHODS = C._STR_METHODS - {'format_map'}
+_PURE_STR_METHODS = {
+    'strip', 'lstrip', 'rstrip', 'lower', 'upper', 'casefold', 'swapcase', 'title', 'capitalize', 'replace', 'split', 'rsplit', 'splitlines',
+    'join', 'startswith', 'endswith', 'find', 'rfind', 'index', 'rindex', 'count', 'encode', 'format', 'isidentifier', 'isalnum', 'isalpha',
+    'isdigit', 'isdecimal', 'isnumeric', 'isspace', 'isascii', 'islower', 'isupper', 'isprintable', 'partition', 'rpartition', 'zfill', 'ljust',
+    'rjust', 'center', 'expandtabs', 'translate', 'removeprefix', 'removesuffix', 'hexdigest', 'digest'}
+_BUILTIN_NAMES = set(dir(__import__('builtins')))
 _PURE_FUNCS = {'str', 'tuple', 'list', 'sorted', 'reversed', 'len', 'repr', 'ascii', 'bytes', 'frozenset', 'sys.intern', 'intern', 're.sub', 're.split',
+               'hashlib.md5', 'hashlib.sha1', 'hashlib.sha256', 'hashlib.sha512', 'hashlib.blake2b', 'hashlib.blake2s', 'zlib.crc32', 'zlib.adler32', 'set', 'min', 'max',
                're.escape', 'unicodedata.normalize', 'map', 'filter'}
 _CONTAINER_CTORS = {'dict', 'OrderedDict', 'defaultdict', 'WeakValueDictionary', 'collections.OrderedDict', 'collections.defaultdict',
                     'weakref.WeakValueDictionary', 'list', 'set', 'LRUCache', 'TTLCache', 'cachetools.LRUCache', 'cachetools.TTLCache'}
@@ -1419,7 +1017,7 @@ class Flow:
             if isinstance(n, ast.Global) and name in n.names:
                 return ('state', f'{m.rel}::{name}', 'rebound through `global`')
         if not bindings:
-            if name in C.BUILTINS or name in C._NATIVE_TYPES:
+            if name in _BUILTIN_NAMES:
                 return ('pure', name)
             return ('unknown', f'{m.rel}: name {name} is not bound at module level')
         if len(bindings) != 1:
@@ -1675,7 +1273,7 @@ class Flow:
                 if d is not None:
                     r = self.resolve_global(fx['m'], d.split('.')[0]) if d.split('.')[0] not in bound and d.split('.')[0] not in fx['env'] and d.split('.')[0] not in fx['defs'] else ('local',)
                     full = (r[1] + d[len(d.split('.')[0]):]) if r[0] == 'pure' else d
-                    if full in _PURE_FUNCS or (r[0] == 'pure' and full.split('.')[-1] in {p_.split('.')[-1] for p_ in _PURE_FUNCS} and full.split('.')[0] in ('re', 'sys', 'unicodedata', 'str', 'tuple', 'list', 'sorted', 'len', 'repr', 'bytes', 'map', 'filter', 'reversed', 'ascii', 'frozenset')):
+                    if full in _PURE_FUNCS or (r[0] == 'pure' and full.split('.')[-1] in {p_.split('.')[-1] for p_ in _PURE_FUNCS} and full.split('.')[0] in ('re', 'sys', 'unicodedata', 'hashlib', 'zlib', 'str', 'tuple', 'list', 'sorted', 'len', 'repr', 'bytes', 'map', 'filter', 'reversed', 'ascii', 'frozenset')):
                         ok = True
                     if full in ('hash', 'id') or full.endswith('.hash'):
                         return [('unknown', f'`{pf.nsrc(n)[:50]}`: hash()/id() are not functions of the text alone (randomised / collisions)')]
@@ -1970,142 +1568,144 @@ def grammar_skips_outer(G: P.Grammar, chars: R.CharSet, left: bool, right: bool)
     return None
 
 
-class KeyEval:
-    """Concrete evaluation of a key / parse-input function T on our own strings (pyconc; Unsupported -> decline)."""
-
-    def __init__(self, ses: Session):
-        self.ses = ses
-
-    def __call__(self, t: ast.AST, rel: Optional[str], s: str) -> Tuple[Any, Optional[str]]:
-        it = self.ses.it
-        env = C.Env(None, it.module(rel or F_TYPES))
-        env.vars[ARG] = s
-        try:
-            return it.ev(t, env), None
-        except C.PyRaise as r:
-            return None, f'{r.name}{r.pargs!r}'[:160]
-
-
-def true_parse(ses: Session, s: Any) -> Tuple[Any, Optional[str]]:
-    """visit(parse(s)) with the grammar and the visitor themselves (no front door): what the text denotes."""
-    if not isinstance(s, str):
-        return None, f'TypeError: parse of a {type(s).__name__}'
-    try:
-        return ses.it.eval_src(F_GRAMMAR, 'type_node_visitor.visit(type_grammar.parse(s))', {'s': s}), None
-    except C.PyRaise as r:
-        return None, f'{r.name}{r.pargs!r}'[:160]
-
-
 def _tsrc(t: ast.AST) -> str:
     return pf.nsrc(t).replace(ARG, 'type_str')
 
 
-def check_parse_flow(ctx: Ctx, mt: pf.Module, G: P.Grammar, battery: List[Tuple[str, Any, str]], ses: Session) -> None:
-    """R7.  battery: (text, the type it was printed from, description)."""
+# closed table of operations that LOSE information of the text they are applied to.  entry: what is lost, and (where the entry itself
+# determines one) a pair of names that the operation maps to the same string.  A name with a blank or a dash is printed between back-ticks.
+_LOSSY_STR_METHODS = {
+    'lower': ('letter case', ('A b', 'a b')), 'upper': ('letter case', ('A b', 'a b')), 'casefold': ('letter case', ('A b', 'a b')),
+    'title': ('letter case', ('a B', 'a b')),
+    'capitalize': ('letter case', ('a B', 'a b')),
+    'replace': ('every occurrence of the replaced text (also inside back-ticked names)', None),
+    'translate': ('the translated / deleted characters (also inside back-ticked names)', None),
+    'split': ('the separators (runs of whitespace are not told apart)', ('a b', 'a  b')), 'rsplit': ('the separators', ('a b', 'a  b')),
+    'partition': ('everything but one part', None), 'rpartition': ('everything but one part', None),
+    'removeprefix': ('the prefix', None), 'removesuffix': ('the suffix', None), 'zfill': ('leading zeros', None), 'ljust': ('trailing padding', None),
+    'rjust': ('leading padding', None), 'center': ('padding', None), 'find': ('everything but a position', None), 'count': ('everything but a count', None),
+    'startswith': ('everything but one bit', None), 'endswith': ('everything but one bit', None),
+}
+_LOSSY_FUNCS = {
+    'unicodedata.normalize': ('compatibility / canonical equivalents of letters, which are printed bare (the ligature U+FB01 is a \\w character)', ('a\ufb01', 'afi')),
+    'zlib.crc32': ('all but a 32-bit checksum', None), 'zlib.adler32': ('all but a 32-bit checksum', None),
+    're.sub': ('whatever the pattern matches (also inside back-ticked names)', None), 're.subn': ('whatever the pattern matches', None),
+    're.split': ('whatever the pattern matches', None), 're.findall': ('whatever the pattern does not match', None),
+    'len': ('everything but the length', ('a b', 'a c')), 'sorted': ('the order of the characters', ('a b', 'b a')), 'set': ('order and multiplicity', ('a b', 'b a')),
+    'frozenset': ('order and multiplicity', ('a b', 'b a')), 'min': ('all but one character', None), 'max': ('all but one character', None),
+}
+_LOSSY_PATTERN_METHODS = {'sub': 'whatever the pattern matches (also inside back-ticked names)', 'subn': 'whatever the pattern matches',
+                          'split': 'whatever the pattern matches', 'findall': 'whatever the pattern does not match'}
+_INJECTIVE_CALLS = {'str', 'sys.intern', 'intern', 'repr', 'ascii'}
+
+
+def classify_transform(t: ast.AST, G: P.Grammar, as_key: bool) -> Tuple[str, str]:
+    """Decide a key / parse-input expression T over the argument from the closed table only (nothing is evaluated):
+         ('ok', why)      T is the argument, an injective wrapping of it, or strips only what the grammar skips at both ends
+         ('lossy', why)   some operation on the path from the argument loses information that is significant inside back-ticked names
+         ('unknown', why) anything else"""
+    core = _peel_key(t) if as_key else _peel_value(t)
+    # `.encode()` / `.encode('utf-8')` without an error handler is injective
+    while isinstance(core, ast.Call) and isinstance(core.func, ast.Attribute) and core.func.attr == 'encode' and not core.keywords and \
+            len(core.args) <= 1 and all(isinstance(a, ast.Constant) for a in core.args) and as_key:
+        core = _peel_key(core.func.value)
+    chain = _strip_chain(core)
+    if chain is not None and not chain:
+        return 'ok', 'the argument itself'
+    # a lossy operation anywhere on the way from the argument decides first
+    for n in ast.walk(core):
+        if not any(isinstance(x, ast.Name) and x.id == ARG for x in ast.walk(n)):
+            continue
+        if isinstance(n, ast.Subscript):
+            what = 'everything outside the slice (long schemas that share a prefix)' if isinstance(n.slice, ast.Slice) else 'all but one element'
+            return 'lossy', f'`{_tsrc(n)}` drops {what}'
+        if isinstance(n, ast.Call):
+            d = pf.dotted(n.func)
+            if isinstance(n.func, ast.Attribute):
+                recv_has_arg = any(isinstance(x, ast.Name) and x.id == ARG for x in ast.walk(n.func.value))
+                meth = n.func.attr
+                if recv_has_arg and meth in ('swapcase',) and not as_key:
+                    return 'lossy', f'`{_tsrc(n)}` changes the letter case of every name'
+                if recv_has_arg and meth in ('replace', 'split', 'rsplit') and n.args and isinstance(n.args[0], ast.Constant) and isinstance(n.args[0].value, str) \
+                        and n.args[0].value and all(ch in '\n\r\t\x0b\x0c' for ch in n.args[0].value):
+                    continue  # printed names never contain raw control characters (they are escaped): not decided by the table
+                if recv_has_arg and meth in _LOSSY_STR_METHODS:
+                    what, pair = _LOSSY_STR_METHODS[meth]
+                    ex = f' - e.g. the type strings of two structs with the single field {pair[0]!r} resp. {pair[1]!r} (printed between back-ticks) give the same result' if pair else ''
+                    return 'lossy', f'`{_tsrc(n)}` does not keep {what}{ex}'
+                if recv_has_arg and meth == 'encode' and (n.keywords or len(n.args) > 1):
+                    return 'lossy', f'`{_tsrc(n)}` with an error handler drops / replaces the characters the codec cannot encode'
+                if not recv_has_arg and meth in _LOSSY_PATTERN_METHODS and d is not None and not d.startswith(('str.', "''.")):
+                    # <compiled pattern>.sub(repl, text)
+                    if meth != 'split' or not isinstance(n.func.value, ast.Constant):
+                        return 'lossy', f'`{_tsrc(n)}` does not keep {_LOSSY_PATTERN_METHODS[meth]}'
+                if recv_has_arg and meth in ('hexdigest', 'digest'):
+                    continue
+            if d in _LOSSY_FUNCS:
+                what, pair = _LOSSY_FUNCS[d]
+                ex = f' - e.g. the type strings of two structs with the single field {pair[0]!r} resp. {pair[1]!r} give the same result' if pair else ''
+                return 'lossy', f'`{_tsrc(n)}` does not keep {what}{ex}'
+    if chain is not None:
+        chars = R.CharSet.empty()
+        for _meth, cs in chain:
+            chars = chars | (R.pred('str.isspace') if cs is None else R.CharSet.of(cs))
+        left = any(m_ in ('strip', 'lstrip') for m_, _c in chain)
+        right = any(m_ in ('strip', 'rstrip') for m_, _c in chain)
+        why = grammar_skips_outer(G, chars, left, right)
+        if why is None:
+            return 'ok', f'`{_tsrc(t)}` only removes characters that the start rule of the grammar skips at both ends'
+        return 'unknown', f'`{_tsrc(t)}` strips characters and {why}'
+    return 'unknown', f'`{_tsrc(t)}` is not in the table of injective / parse-preserving / lossy shapes'
+
+
+def check_parse_flow(ctx: Ctx, mt: pf.Module, G: P.Grammar) -> None:
+    """R7, decided from the data-flow facts and the closed table of key shapes; nothing is evaluated."""
     fl = Flow(ctx)
     fn = mt.func('dtype')
     results = fl.call_function(mt, fn, None, None)
     declines: List[str] = []
-    kev = KeyEval(ses)
     cons0 = f'{F_TYPES}::dtype'
-    by_text = {}
-    for text, t, desc in battery:
-        by_text.setdefault(text, (t, desc))
-    texts = list(by_text.items())
-
-    def same_type(a: Any, b: Any) -> bool:
-        return types_equal(ses, a, b)
-
-    def transform_verdict(t: ast.AST, rel: Optional[str], as_key: bool) -> Tuple[str, str]:
-        """('ok', why) the transformation cannot merge / alter texts with different parses; ('bad', witness); ('unknown', why)."""
-        core = _peel_key(t) if as_key else _peel_value(t)
-        chain = _strip_chain(core)
-        if chain is not None and not chain:
-            return 'ok', 'the argument itself'
-        if chain is not None:
-            chars = R.CharSet.empty()
-            for meth, cs in chain:
-                chars = chars | (R.pred('str.isspace') if cs is None else R.CharSet.of(cs))
-            left = any(m_ in ('strip', 'lstrip') for m_, _c in chain)
-            right = any(m_ in ('strip', 'rstrip') for m_, _c in chain)
-            why = grammar_skips_outer(G, chars, left, right)
-            if why is None:
-                return 'ok', f'`{_tsrc(t)}` only removes characters that the start rule of the grammar skips at both ends'
-            # not provably harmless: look for a witness below
-        # witness search on the battery
-        if as_key:
-            seen: Dict[str, Tuple[str, Any, str]] = {}
-            for text, (ty, desc) in texts:
-                k, err = kev(t, rel, text)
-                if err is not None:
-                    return 'bad', f'`{_tsrc(t)}` raises {err} for the printed form {ascii(text)} of {desc}'
-                try:
-                    kk = ses.it.to_repr(k)
-                except AnalysisError as ex:
-                    return 'unknown', f'key `{_tsrc(t)}`: {ex}'
-                if kk in seen and not same_type(seen[kk][1], ty):
-                    h, hty, hdesc = seen[kk]
-                    return 'bad', (f'`{_tsrc(t)}` maps {ascii(h)} (printed form of {hdesc}) and {ascii(text)} (printed form of {desc}) to the same key {kk[:80]}, '
-                                   f'but they denote different types')
-                seen.setdefault(kk, (text, ty, desc))
-            return 'unknown', f'`{_tsrc(t)}` is not one of the recognised injective / parse-preserving shapes and no colliding pair was found among {len(texts)} sample strings'
-        for text, (ty, desc) in texts:
-            s2, err = kev(t, rel, text)
-            if err is not None:
-                return 'bad', f'`{_tsrc(t)}` raises {err} for the printed form {ascii(text)} of {desc}'
-            got, perr = true_parse(ses, s2)
-            if perr is not None or not same_type(ty, got):
-                what = f'does not parse ({perr})' if perr is not None else f'parses as {ascii(ses.show(got))}'
-                fresh = Session()
-                try:
-                    fgot, ferr = fresh.try_dtype(text)
-                except C.Unsupported as ex:
-                    return 'unknown', f'cannot replay dtype({ascii(text)}) with the evaluator: {ex}'
-                if ferr is None and struct_equal(fresh.it, ty, fgot):
-                    return 'unknown', (f'`{_tsrc(t)}` alters {ascii(text)} in a way that changes its parse, but evaluating dtype on it does not reproduce a wrong '
-                                       f'result (guarded path?)')
-                return 'bad', f'for t = {desc}, the printed form {ascii(text)} is turned into {ascii(s2) if isinstance(s2, str) else type(s2).__name__} before parsing, which {what}, not t'
-        return 'unknown', f'`{_tsrc(t)}` is applied to the text before parsing; it is not a recognised parse-preserving shape (no sample is altered by it)'
-
-    def _replays(h: str, text: str, ty: Any) -> bool:
-        """dtype(h); dtype(text) in a fresh modelled process returns something that is not the type `text` was printed from."""
-        fresh = Session()
+    # a guard on back-ticks may make a lossy key harmless: then nothing is claimed
+    guarded = False
+    for rel, fname in fl.functions:
         try:
-            fresh.try_dtype(h)
-            got, err = fresh.try_dtype(text)
-        except C.Unsupported as ex:
-            raise AnalysisError(f'R7: cannot replay the colliding history with the evaluator: {ex}') from None
-        return err is not None or not struct_equal(fresh.it, ty, got)
-
+            f_ = pf.load(rel).func(fname)
+        except AnalysisError:
+            continue
+        for n in ast.walk(f_):
+            if isinstance(n, (ast.If, ast.IfExp, ast.While, ast.Assert)) and any(isinstance(x, ast.Constant) and isinstance(x.value, str) and '`' in x.value
+                                                                                 for x in ast.walk(n.test)):
+                guarded = True
     seen_ret = set()
     for v in results:
         if v[0] == 'unknown':
             declines.append(str(v[1]))
             continue
         if v[0] == 'const' and v[1] is None and len(results) > 1:
-            continue  # flow-insensitive artefact of `x = cache.get(k)` / bare return in a helper
+            continue  # flow-insensitive artefact of `x = cache.get(k)` / a bare return in a helper
         if v[0] == 'parsed':
             key = ('parsed', pf.nsrc(v[1]))
             if key in seen_ret:
                 continue
             seen_ret.add(key)
-            verdict, why = transform_verdict(v[1], v[2], as_key=False)
+            verdict, why = classify_transform(v[1], G, as_key=False)
             cons = f'{cons0}::returns visit(parse({_tsrc(v[1])}))'
             if verdict == 'ok':
                 ctx.ok('R7', cons, why)
-            elif verdict == 'bad':
-                ctx.bad('R7', cons, f'dtype parses `{_tsrc(v[1])}` instead of its argument: {why}', mt.path, fn.lineno)
+            elif verdict == 'lossy' and not guarded:
+                ctx.bad('R7', cons, f'dtype parses `{_tsrc(v[1])}` instead of its argument: {why}. Whitespace, case and every character are significant inside '
+                        f'back-ticked field / reference-genome names, so the printed form of a type with such a name parses to a different type '
+                        f'(no history needed)', mt.path, fn.lineno)
             else:
-                declines.append(why)
+                declines.append(why + (' (and a test on back-ticks guards some path)' if guarded else ''))
         elif v[0] == 'memo':
-            cid, K, krel = v[1], v[2], v[3]
+            cid, K = v[1], v[2]
             key = ('memo', cid, pf.nsrc(K))
             if key in seen_ret:
                 continue
             seen_ret.add(key)
             cons = f'{cons0}::returns {cid.split("::")[-1]}[{_tsrc(K)}]'
             ws = [w for w in fl.writes if w['C'] == cid]
-            # other writers in the module(s) that the flow did not visit
             foreign = _foreign_writers(fl, cid)
             if foreign:
                 declines.append(f'the container {cid} is also written by {foreign}; not analysed')
@@ -2113,93 +1713,65 @@ def check_parse_flow(ctx: Ctx, mt: pf.Module, G: P.Grammar, battery: List[Tuple[
             if not ws:
                 declines.append(f'dtype returns entries of {cid}, which no analysed function fills (pre-populated table?); not analysed')
                 continue
+            kv, kwhy = classify_transform(K, G, as_key=True)
             problem: Optional[str] = None
             unknown: Optional[str] = None
-            kv, kwhy = transform_verdict(K, krel, as_key=True)
+            if kv == 'lossy':
+                problem = (f'the memo {cid.split("::")[-1]} is read under the key `{_tsrc(K)}`: {kwhy}. Two type strings that differ only in that respect inside a '
+                           f'back-ticked name denote different types but share an entry: after hl.dtype of the first, hl.dtype(str(t2)) returns t1 '
+                           f'(each of them round-trips alone, in a fresh process)')
+            elif kv == 'unknown':
+                unknown = kwhy
             for w in ws:
-                wk = [k for k in w['K']]
-                if any(k[0] not in ('arg',) for k in wk):
-                    unknown = f'a key written to {cid} in {w["fn"].name} is not a pure function of the argument'
+                if any(k[0] != 'arg' for k in w['K']):
+                    unknown = unknown or f'a key written to {cid} in {w["fn"].name} is not a pure function of the argument'
                     continue
-                for k in wk:
+                for k in w['K']:
+                    wv, wwhy = classify_transform(k[1], G, as_key=True)
+                    if wv == 'lossy' and not problem:
+                        problem = (f'`{pf.nsrc(w["node"])[:70]}` stores under the key `{_tsrc(k[1])}`: {wwhy}. Two type strings that differ only in that respect '
+                                   f'inside a back-ticked name share the entry, and the later one gets the earlier one\'s type')
+                    elif wv == 'unknown':
+                        unknown = unknown or wwhy
+                    elif pf.nsrc(k[1]) != pf.nsrc(K) and wv == 'ok' and kv == 'ok' and pf.nsrc(_peel_key(k[1])) != pf.nsrc(_peel_key(K)):
+                        unknown = unknown or f'read key `{_tsrc(K)}` and write key `{_tsrc(k[1])}` differ'
                     for val in w['V']:
-                        if val[0] == 'memo' and val[1] == cid:
-                            continue
-                        if val[0] == 'const' and val[1] is None:
+                        if (val[0] == 'memo' and val[1] == cid) or (val[0] == 'const' and val[1] is None):
                             continue
                         if val[0] != 'parsed':
-                            unknown = f'the value stored in {cid} by `{pf.nsrc(w["node"])[:60]}` is not a parse result ({val[0]}{": " + str(val[1]) if val[0] == "unknown" else ""})'
+                            unknown = unknown or (f'the value stored in {cid} by `{pf.nsrc(w["node"])[:60]}` is not a parse result '
+                                                  f'({val[0]}{": " + str(val[1]) if val[0] == "unknown" else ""})')
                             continue
-                        same_key = pf.nsrc(k[1]) == pf.nsrc(K)
-                        tv, twhy = transform_verdict(val[1], val[2], as_key=False)
-                        if tv == 'bad':
-                            problem = f'`{pf.nsrc(w["node"])[:70]}` stores the parse of `{_tsrc(val[1])}`: {twhy}'
+                        tv, twhy = classify_transform(val[1], G, as_key=False)
+                        if tv == 'lossy' and not problem:
+                            problem = f'`{pf.nsrc(w["node"])[:70]}` stores the parse of `{_tsrc(val[1])}`, not of the argument: {twhy}'
                         elif tv == 'unknown':
-                            unknown = twhy
-                        if same_key and kv == 'ok':
-                            continue
-                        # read key K(s), write key Kw(h), stored value parse(Tv(h)): search a history h ; s
-                        index: Dict[str, List[Tuple[str, Any, str]]] = {}
-                        for text, (ty, desc) in texts:
-                            kwv, err = kev(k[1], k[2], text)
-                            if err is not None:
-                                problem = f'the key `{_tsrc(k[1])}` raises {err} for {ascii(text)}'
-                                break
-                            try:
-                                index.setdefault(ses.it.to_repr(kwv), []).append((text, ty, desc))
-                            except AnalysisError as ex:
-                                unknown = f'key `{_tsrc(k[1])}`: {ex}'
-                                break
-                        if problem or (unknown and not index):
-                            continue
-                        found = None
-                        for text, (ty, desc) in texts:
-                            kr, err = kev(K, krel, text)
-                            if err is not None:
-                                problem = f'the key `{_tsrc(K)}` raises {err} for {ascii(text)}'
-                                break
-                            try:
-                                kk = ses.it.to_repr(kr)
-                            except AnalysisError as ex:
-                                unknown = f'key `{_tsrc(K)}`: {ex}'
-                                break
-                            for h, hty, hdesc in index.get(kk, []):
-                                if h != text and not same_type(hty, ty):
-                                    found = (h, hdesc, text, desc, kk)
-                                    break
-                            if found:
-                                break
-                        if found and not _replays(found[0], found[2], by_text[found[2]][0]):
-                            unknown = (f'the keys of {ascii(found[0])} and {ascii(found[2])} collide in {cid}, but replaying dtype on that history with the evaluator does '
-                                       f'not reproduce a wrong result (guarded write?)')
-                        elif found:
-                            h, hdesc, text, desc, kk = found
-                            problem = (f'history: hl.dtype({ascii(h)}) [printed form of {hdesc}] stores its result under the key {kk[:70]} '
-                                       f'(`{pf.nsrc(w["node"])[:60]}`); then hl.dtype({ascii(text)}) [printed form of t = {desc}] computes the same key and returns the '
-                                       f'stored type instead of t. The key `{_tsrc(K)}` is not an injective function of the text: two texts that denote different types '
-                                       f'share a key (what the key drops or folds is significant, e.g. inside back-ticked names)')
-                        elif not problem:
-                            unknown = unknown or (kwhy if kv != 'ok' else f'read key `{_tsrc(K)}` and write key `{_tsrc(k[1])}` differ; no colliding history found')
-            if problem:
+                            unknown = unknown or twhy
+            if problem and not guarded:
                 ctx.bad('R7', cons, problem, mt.path, fn.lineno, extra={'container': cid, 'key': _tsrc(K)})
-            elif unknown:
-                declines.append(unknown)
+            elif problem or unknown:
+                declines.append((unknown or problem or '') + (' (and a test on back-ticks guards some path)' if guarded and problem else ''))
             else:
                 ctx.ok('R7', cons, f'memo keyed by {kwhy}; only written with the value parsed from the same text')
         else:
-            declines.append(f'dtype may return a {v[0]} value ({pf.nsrc(v[1])[:50] if len(v) > 1 and isinstance(v[1], ast.AST) else v[1:] })')
+            declines.append(f'dtype may return a {v[0]} value ({pf.nsrc(v[1])[:50] if len(v) > 1 and isinstance(v[1], ast.AST) else v[1:]})')
     for d in fl.decorated:
         ctx.ok('R7', f'{d}::keyed by the arguments themselves', 'functools cache: key = the argument tuple (str equality), value = result of the call on that very argument')
-    # the visitor(s) keep no state between parses
     for vrel, vcls in fl.visitors:
         why = _visitor_state(vcls)
         if why is not None:
-            declines.append(f'{vrel}::{vcls.name}: {why}')
+            lossy = _visitor_memo_keys(vcls, G)
+            if lossy is not None and not guarded:
+                meth_, node_, kwhy_ = lossy
+                ctx.bad('R7', f'{vrel}::{vcls.name}.{meth_.name}::memo inside the visitor', f'{meth_.name} keeps results between parses (`{pf.nsrc(node_)[:60]}`) under a key '
+                        f'computed from the node text: {kwhy_.replace("type_str", "node.text")}. Two texts that differ only in that respect inside a back-ticked name denote '
+                        f'different types but share the entry: the second one parsed gets the first one\'s type', pf.load(vrel).path, meth_.lineno)
+            else:
+                declines.append(f'{vrel}::{vcls.name}: {why}')
         else:
             ctx.ok('R7', f'{vrel}::{vcls.name}::visitor methods keep no state between parses', {'methods': sum(isinstance(x, ast.FunctionDef) for x in vcls.body)})
     if declines:
         raise AnalysisError('R7 (dtype returns the parse of its own argument): ' + '; '.join(dict.fromkeys(declines)))
-
 
 def _foreign_writers(fl: Flow, cid: str) -> List[str]:
     rel, _, name = cid.partition('::')
@@ -2226,6 +1798,43 @@ def _foreign_writers(fl: Flow, cid: str) -> List[str]:
             if tgt:
                 out.append(tgt)
     return sorted(set(out))
+
+
+def _visitor_memo_keys(c: ast.ClassDef, G: P.Grammar) -> Optional[Tuple[ast.FunctionDef, ast.AST, str]]:
+    """A store `self.<container>[K] = ...` / `.setdefault(K, ...)` in a visit method whose key K, as a function of `node.text`, is LOSSY by the
+    closed table: (method, store, why).  None when there is no such store (or its key is not a function of node.text alone)."""
+    for st in c.body:
+        if not isinstance(st, ast.FunctionDef) or len(st.args.args) < 2:
+            continue
+        node_param = st.args.args[1].arg
+        for n in ast.walk(st):
+            key = None
+            if isinstance(n, ast.Assign):
+                for t in n.targets:
+                    for x in ([t] + (list(t.elts) if isinstance(t, (ast.Tuple, ast.List)) else [])):
+                        if isinstance(x, ast.Subscript) and isinstance(x.value, ast.Attribute) and isinstance(x.value.value, ast.Name) and x.value.value.id in ('self', c.name):
+                            key = x.slice
+            elif isinstance(n, ast.Call) and isinstance(n.func, ast.Attribute) and n.func.attr == 'setdefault' and n.args and isinstance(n.func.value, ast.Attribute) \
+                    and isinstance(n.func.value.value, ast.Name) and n.func.value.value.id in ('self', c.name):
+                key = n.args[0]
+            if key is None:
+                continue
+            k2 = pf.expand_locals(st, key)
+
+            class _R(ast.NodeTransformer):
+                def visit_Attribute(s2, node):
+                    if node.attr in ('text', 'full_text') and isinstance(node.value, ast.Name) and node.value.id == node_param:
+                        return ast.Name(id=ARG, ctx=ast.Load())
+                    return s2.generic_visit(node)
+            import copy
+            k3 = _R().visit(copy.deepcopy(k2))
+            names = {x.id for x in ast.walk(k3) if isinstance(x, ast.Name)}
+            if ARG not in names:
+                continue
+            verdict, why = classify_transform(k3, G, as_key=True)
+            if verdict == 'lossy':
+                return st, n, why
+    return None
 
 
 _MUTATORS = {'append', 'extend', 'insert', 'add', 'update', 'setdefault', 'pop', 'popitem', 'remove', 'discard', 'clear', '__setitem__', 'move_to_end'}
@@ -2372,115 +1981,400 @@ def check_printer_memo(ctx: Ctx, mt: pf.Module, classes: Dict[str, ast.ClassDef]
 
 
 # --------------------------------------------------------------------------------------
-# R9: the engine reads `_parsable_string()` of every sample in full, with the same structure and the same names as the Python grammar
-# reads `str()` of it (IRLexer / IRParser.type_expr modelled from the extracted Scala fragments)
+# symbolic printer templates (shared by R4 `_pretty`, R8 and R9): nothing is evaluated, the template is read off the syntax tree
+# parts: ('lit', text) ('ws',) ('hole', 'TYPE'|'NAT'|'NAME'|'RAWNAME', key) ('join', sep_text, [parts of one element])
 # --------------------------------------------------------------------------------------
 
 
-class EngineReject(Exception):
-    def __init__(self, msg: str, escape_char: Optional[str] = None):
-        super().__init__(msg)
-        self.escape_char = escape_char
+class Skeleton:
+    def __init__(self, m: pf.Module, tcat: Templates):
+        self.m = m
+        self.tcat = tcat
 
+    def fail(self, e: ast.AST, where: str = ''):
+        raise AnalysisError(f'{self.m.rel}{where}: printer expression not recognised `{pf.nsrc(e)[:80]}`')
 
-class EngineModel:
-    def __init__(self, ctx: Ctx, lex: dict, ident: dict, tokens: List[str], arms: dict, L_java: R.Lang, cases: Dict[str, str]):
-        self.lex, self.arms, self.cases = lex, arms, cases
-        ctx.need(tokens[:4] == ['identifier', 'float64_literal', 'int64_literal', 'string_literal'] and len(tokens) == 5 and tokens[4].endswith('.r'),
-                 f'{F_PARSER}::IRLexer.token: alternatives changed ({tokens}); the lexer model does not apply')
-        ctx.need(ident['alternatives'] == ['backtickLiteral', 'ident'], f'{F_PARSER}::IRLexer.identifier is not `backtickLiteral | ident` ({ident["alternatives"]})')
-        self.delim = ident.get('backtick_delim', '`')
-        self.punct = re.compile(S.scala_string_value(tokens[4][:-2], F_PARSER))
-        self.java = R.to_dfa(L_java, R.alphabet_for([L_java]))
-        src = S.load(F_PARSER)
-        lspan = src.find_object('IRLexer')
-        ltext = src.norm(lspan[0], lspan[1])
-        self.float_res = []
-        for pat in (r'[+-]?\d+(\.\d+)?[eE][+-]?\d+', r'[+-]?\d*\.\d+'):
-            ctx.need(('"""' + pat + '""".r') in ltext, f'{F_PARSER}::IRLexer.float64_literal changed; the lexer model does not apply')
-            self.float_res.append(re.compile(pat, re.A))
-        ctx.need('def int64_literal: Parser[Long] = wholeNumber.map(_.toLong)' in ltext, f'{F_PARSER}::IRLexer.int64_literal changed')
-        self.int_re = re.compile(r'-?\d+', re.A)
-        self.ws = re.compile(r'\s+')
-        # IRParser pieces
-        pspan = src.find_object('IRParser')
-        self.src, self.pspan = src, pspan
-        _st, lo, hi, _sig = src.find_def('type_expr', pspan, signature_contains='it: TokenIterator')
-        body = src.norm(lo, hi)
-        head = body.split('identifier(it) match')[0]
-        self.skip_plus = 'case x: PunctuationToken if x.value == "+" => punctuation(it, "+")' in head
-        ctx.need(self.skip_plus or 'punctuation' not in head, f'{F_PARSER}::IRParser.type_expr: prelude `{head[:80]}` not recognised')
-        rs = [src.norm(lo2, hi2) for _s, lo2, hi2, _g in src.find_defs('repsepUntil', pspan)]
-        ctx.need(rs == ['{ val xs = ArraySeq.newBuilder[T] while (it.hasNext && it.head != end) { xs += f(it) if (it.head == sep) consumeToken(it): Unit } xs.result() }'],
-                 f'{F_PARSER}::IRParser.repsepUntil changed; its model does not apply')
-        self.scripts: Dict[str, Tuple[List[tuple], str]] = {}
-        self.helpers: Dict[str, Tuple[List[tuple], str]] = {}
-
-    # ---- lexer
-    def tokenize(self, text: str) -> List[Tuple[str, Any]]:
-        out: List[Tuple[str, Any]] = []
-        i, n = 0, len(text)
+    def key(self, e: ast.AST, roles: Dict[str, str]) -> str:
+        """What a hole shows: the attribute (leading underscores dropped) or the role of a loop variable."""
         while True:
-            mws = self.ws.match(text, i)
-            if mws:
-                i = mws.end()
-            if i >= n:
-                return out
-            c = text[i]
-            if c == self.delim:
-                j = i + 1
-                body = []
-                while True:
-                    if j >= n:
-                        raise EngineReject(f'unterminated backtick identifier starting at offset {i}')
-                    ch = text[j]
-                    j += 1
-                    if ch == self.delim:
-                        break
-                    body.append(ch)
-                    if ch == '\\':
-                        if j >= n:
-                            raise EngineReject('unterminated backtick identifier')
-                        d = text[j]
-                        if d not in self.lex['escape_chars']:
-                            raise EngineReject(f'invalid escape character {d!r} in backtick identifier at offset {j}', escape_char=d)
-                        body.append(d)
-                        j += 1
-                units = scala_decode(''.join(body), self.arms)
-                if units is None:
-                    raise EngineReject(f'unescapeString rejects {"".join(body)!r}')
-                out.append(('id', _from_utf16(units)))
-                i = j
-                continue
-            end = R.longest_prefix_match(self.java, text, i)
-            if end is not None and end > i:
-                out.append(('id', text[i:end]))
-                i = end
-                continue
-            if text.startswith('-inf', i):
-                out.append(('float', '-inf'))
-                i += 4
-                continue
-            mf = next((m for m in (r_.match(text, i) for r_ in self.float_res) if m), None)
-            if mf:
-                out.append(('float', mf.group()))
-                i = mf.end()
-                continue
-            mi = self.int_re.match(text, i)
-            if mi:
-                out.append(('int', int(mi.group())))
-                i = mi.end()
-                continue
-            if c in '"\'':
-                raise EngineReject(f'string literal at offset {i} (not expected in a type)')
-            mp = self.punct.match(text, i)
-            if mp:
-                out.append(('punct', mp.group()))
-                i = mp.end()
-                continue
-            raise EngineReject(f'IRLexer has no token for {text[i:i + 10]!r} at offset {i}')
+            if isinstance(e, ast.Call) and pf.dotted(e.func) == 'str' and len(e.args) == 1:
+                e = e.args[0]
+            elif isinstance(e, ast.Call) and isinstance(e.func, ast.Attribute) and e.func.attr in ('_parsable_string', '__str__') and not e.args:
+                e = e.func.value
+            elif isinstance(e, ast.Attribute) and e.attr == 'name' and not (isinstance(e.value, ast.Name) and e.value.id == 'self'):
+                e = e.value
+            else:
+                break
+        if isinstance(e, ast.Name):
+            return roles.get(e.id, e.id)
+        if isinstance(e, ast.Attribute) and isinstance(e.value, ast.Name) and e.value.id == 'self':
+            a = e.attr.lstrip('_')
+            return 'reference_genome' if a == 'rg' else a
+        return pf.nsrc(e)
 
-    # ---- parser scripts
+    def expr(self, e: ast.AST, env: Dict[str, str], roles: Dict[str, str]) -> List[tuple]:
+        s = pf.const_str(e)
+        if s is not None:
+            return [('lit', s)] if s else []
+        if isinstance(e, ast.Call) and pf.dotted(e.func) == self.tcat.escaper and len(e.args) == 1 and not e.keywords:
+            if self.tcat.category(e.args[0], env) != 'NAME':
+                self.fail(e)
+            return [('hole', 'NAME', self.key(e.args[0], roles))]
+        cat = self.tcat.category(e, env)
+        if cat in ('TYPE', 'NAT'):
+            mode = 'engine' if isinstance(e, ast.Call) and isinstance(e.func, ast.Attribute) and e.func.attr == '_parsable_string' else 'python'
+            return [('hole', cat, self.key(e, roles), mode)]
+        if cat == 'NAME':
+            return [('hole', 'RAWNAME', self.key(e, roles))]
+        if isinstance(e, ast.BinOp) and isinstance(e.op, ast.Add):
+            return self.expr(e.left, env, roles) + self.expr(e.right, env, roles)
+        if isinstance(e, ast.BinOp) and isinstance(e.op, ast.Mult):
+            for side, other in ((e.left, e.right), (e.right, e.left)):
+                cs = pf.const_str(side)
+                if cs is not None and cs.strip() == '' and isinstance(other, (ast.Name, ast.Constant)):
+                    return [('ws',)]
+            self.fail(e)
+        if isinstance(e, ast.JoinedStr):
+            out: List[tuple] = []
+            for v in e.values:
+                if isinstance(v, ast.Constant):
+                    out.append(('lit', str(v.value)))
+                elif isinstance(v, ast.FormattedValue) and v.format_spec is None and v.conversion == -1:
+                    out += self.expr(v.value, env, roles)
+                else:
+                    self.fail(e)
+            return out
+        if isinstance(e, ast.Call) and isinstance(e.func, ast.Attribute) and e.func.attr == 'format' and not e.keywords:
+            tmpl = pf.const_str(e.func.value)
+            if tmpl is None:
+                self.fail(e)
+            pieces = self.tcat.split_format(tmpl, e)  # type: ignore[arg-type]
+            if len(pieces) - 1 != len(e.args):
+                self.fail(e)
+            out = []
+            for i, pc in enumerate(pieces):
+                if pc:
+                    out.append(('lit', pc))
+                if i < len(e.args):
+                    out += self.expr(e.args[i], env, roles)
+            return out
+        if isinstance(e, ast.Call) and isinstance(e.func, ast.Attribute) and e.func.attr == 'join' and len(e.args) == 1 and not e.keywords:
+            sep = pf.const_str(e.func.value)
+            it = e.args[0]
+            if sep is None or not isinstance(it, (ast.GeneratorExp, ast.ListComp)) or len(it.generators) != 1 or it.generators[0].ifs:
+                self.fail(e)
+            gen = it.generators[0]  # type: ignore[union-attr]
+            env2, roles2 = self.loop_env(gen.iter, gen.target, env, roles, e)
+            return [('join', sep, self.expr(it.elt, env2, roles2))]  # type: ignore[union-attr]
+        self.fail(e)
+        raise AssertionError
+
+    def loop_env(self, it: ast.AST, target: ast.AST, env: Dict[str, str], roles: Dict[str, str], where: ast.AST) -> Tuple[Dict[str, str], Dict[str, str]]:
+        env2, roles2 = dict(env), dict(roles)
+        src = pf.nsrc(it)
+        if src.startswith('enumerate(') and src.endswith(')') and isinstance(target, ast.Tuple) and len(target.elts) == 2 and isinstance(target.elts[0], ast.Name) \
+                and isinstance(it, ast.Call) and len(it.args) == 1:
+            env2[target.elts[0].id] = 'INDEX'
+            return self.loop_env(it.args[0], target.elts[1], env2, roles2, where)
+        if src == 'self.items()' and isinstance(target, ast.Tuple) and len(target.elts) == 2 and all(isinstance(x, ast.Name) for x in target.elts):
+            env2[target.elts[0].id], env2[target.elts[1].id] = 'NAME', 'TYPE'  # type: ignore[union-attr]
+            roles2[target.elts[0].id], roles2[target.elts[1].id] = '<field name>', '<field type>'  # type: ignore[union-attr]
+        elif src in ('self.types', 'self._types') and isinstance(target, ast.Name):
+            env2[target.id] = 'TYPE'
+            roles2[target.id] = '<member type>'
+        else:
+            self.fail(where)
+        return env2, roles2
+
+    def of_return(self, fn: ast.FunctionDef) -> List[tuple]:
+        body = [s for s in fn.body if not (isinstance(s, ast.Expr) and isinstance(s.value, ast.Constant))]
+        if len(body) != 1 or not isinstance(body[0], ast.Return) or body[0].value is None:
+            raise AnalysisError(f'{self.m.rel}::{fn.name}: not a single `return <template>`')
+        return self.expr(body[0].value, {}, {})
+
+    def of_pretty(self, cname: str, fn: ast.FunctionDef) -> List[List[tuple]]:
+        """`_pretty(self, b, indent, increment)`: the appended pieces in order; a loop with `if i > 0: b.append(sep)` is a join; a branch that
+        ends in `return` is a complete alternative form.  Returns the alternative forms."""
+        params = [a.arg for a in fn.args.args]
+        if len(params) != 4:
+            raise AnalysisError(f'{self.m.rel}::{cname}._pretty: signature {params} not recognised')
+        buf, ind = params[1], params[2]
+        forms: List[List[tuple]] = []
+        where = f'::{cname}._pretty'
+
+        def block(stmts: List[ast.stmt], env: Dict[str, str], roles: Dict[str, str], acc: List[tuple], in_loop: bool) -> bool:
+            """Appends to acc; True when the block ends in `return`."""
+            for st in stmts:
+                if isinstance(st, ast.Expr) and isinstance(st.value, ast.Constant):
+                    continue
+                if isinstance(st, ast.Return) and st.value is None:
+                    return True
+                if isinstance(st, (ast.Assign, ast.AugAssign)):
+                    tg = st.targets[0] if isinstance(st, ast.Assign) else st.target
+                    if isinstance(tg, ast.Name) and (tg.id == ind or tg.id.endswith('indent')) and all(isinstance(x, (ast.Name, ast.BinOp, ast.Add, ast.Load, ast.Constant, ast.Store)) or isinstance(x, ast.operator) for x in ast.walk(st.value)):
+                        continue
+                    self.fail(st, where)
+                if isinstance(st, ast.Expr) and isinstance(st.value, ast.Call) and isinstance(st.value.func, ast.Attribute):
+                    c = st.value
+                    if pf.dotted(c.func) == f'{buf}.append' and len(c.args) == 1 and not c.keywords:
+                        acc += self.expr(c.args[0], env, roles)
+                        continue
+                    if c.func.attr == '_pretty' and len(c.args) == 3 and pf.nsrc(c.args[0]) == buf and self.tcat.category(c.func.value, env) == 'TYPE':
+                        acc.append(('hole', 'TYPE', self.key(c.func.value, roles)))
+                        continue
+                    self.fail(st, where)
+                if isinstance(st, ast.If) and not in_loop:
+                    alt: List[tuple] = list(acc)
+                    if block(st.body, env, roles, alt, False) and not st.orelse:
+                        forms.append(alt)
+                        continue
+                    self.fail(st, where)
+                if isinstance(st, ast.For) and not in_loop and not st.orelse:
+                    env2, roles2 = self.loop_env(st.iter, st.target, env, roles, st)
+                    idx = [k for k, v in env2.items() if v == 'INDEX']
+                    body = list(st.body)
+                    sep = ''
+                    if body and isinstance(body[0], ast.If) and idx and pf.nsrc(body[0].test) == f'{idx[0]} > 0' and not body[0].orelse:
+                        sp_: List[tuple] = []
+                        block(body[0].body, env2, roles2, sp_, True)
+                        if not all(p_[0] == 'lit' for p_ in sp_):
+                            self.fail(body[0], where)
+                        sep = ''.join(p_[1] for p_ in sp_)
+                        body = body[1:]
+                    elem: List[tuple] = []
+                    if block(body, env2, roles2, elem, True):
+                        self.fail(st, where)
+                    acc.append(('join', sep, elem))
+                    continue
+                self.fail(st, where)
+            return False
+        main: List[tuple] = []
+        block(list(fn.body), {}, {}, main, False)
+        forms.append(main)
+        return forms
+
+
+def instantiate(parts: List[tuple], types: List[str], idents: List[str]) -> List[str]:
+    """Strings of a symbolic template: holes cycle through the given child types / rendered names; a join gives the empty, one-, two- and
+    all-element forms."""
+    cols: List[List[str]] = []
+    for p_ in parts:
+        if p_[0] == 'lit':
+            cols.append([p_[1]])
+        elif p_[0] == 'ws':
+            cols.append(['    ', ''])
+        elif p_[0] == 'hole':
+            cols.append(list(types) if p_[1] == 'TYPE' else ['2', '0'] if p_[1] == 'NAT' else list(idents) if p_[1] == 'NAME' else ['a', 'a b', '`'])
+        else:
+            elts = instantiate(p_[2], types, idents)
+            sep = p_[1]
+            out = [''] + list(elts) + [sep.join([elts[i % len(elts)], elts[(i + 1) % len(elts)]]) for i in range(len(elts))] + [sep.join(elts)]
+            cols.append(out)
+    return Templates.combine(cols, lambda xs: ''.join(xs)) if cols else ['']
+
+
+def _all_holes(parts: List[tuple]) -> List[tuple]:
+    out: List[tuple] = []
+    for p_ in parts:
+        if p_[0] == 'hole':
+            out.append(p_)
+        elif p_[0] == 'join':
+            out += _all_holes(p_[2])
+    return out
+
+
+def hole_keys(parts: List[tuple]) -> List[Tuple[str, str]]:
+    out: List[Tuple[str, str]] = []
+    for p_ in parts:
+        if p_[0] == 'hole':
+            out.append(('NAME' if p_[1] == 'RAWNAME' else p_[1], p_[2]))
+        elif p_[0] == 'join':
+            out += [(c + '*', k) for c, k in hole_keys(p_[2])]
+    return out
+
+
+# --------------------------------------------------------------------------------------
+# R8 (static): the visitor hands every value-carrying member of a rule to the constructor, unaltered and in reading order; the printer
+# shows the constructor parameters in parameter order
+# --------------------------------------------------------------------------------------
+
+_NAME_LOSSY = set(_LOSSY_STR_METHODS) | {'strip', 'lstrip', 'rstrip', 'swapcase', 'expandtabs', 'encode', 'format', 'join'}
+_REORDERING = {'sorted': 'reorders', 'reversed': 'reverses', 'set': 'drops order and duplicates', 'frozenset': 'drops order and duplicates',
+               'min': 'keeps one element', 'max': 'keeps one element', 'sum': 'collapses'}
+_VISITOR_NEUTRAL_CALLS = {'dict', 'list', 'tuple', 'int', 'len', 'bool', 'isinstance', 'unescape_parsable', 'NatVariable', 'iter', 'zip', 'enumerate'}
+
+
+def check_visitor_flow(ctx: Ctx, mg: pf.Module, G: P.Grammar, vis: ast.ClassDef) -> None:
+    visitors = {st.name[len('visit_'):]: st for st in vis.body if isinstance(st, ast.FunctionDef) and st.name.startswith('visit_')}
+
+    def carrying(e: tuple, seen: frozenset = frozenset()) -> bool:
+        k = e[0]
+        if k == 'ref':
+            if e[1] in visitors:
+                return True
+            if e[1] in seen:
+                return False
+            return carrying(G.rules[e[1]], seen | {e[1]})
+        if k in ('seq', 'alt'):
+            return any(carrying(x, seen) for x in e[1])
+        if k in ('opt', 'star', 'plus'):
+            return carrying(e[1], seen)
+        return False
+
+    for rname, meth in visitors.items():
+        rule = G.rules.get(rname)
+        if rule is None or rule[0] != 'seq':
+            continue
+        members = rule[1]
+        car = [carrying(x) for x in members]
+        if not any(car):
+            continue
+        cons = f'{F_GRAMMAR}::TypeConstructor.visit_{rname}::every value-carrying member reaches the result unaltered, in reading order'
+        vc = meth.args.args[2].arg if len(meth.args.args) == 3 else None
+        ctx.need(vc is not None, f'{F_GRAMMAR}::visit_{rname}: signature not (self, node, visited_children)')
+        unpack = [st for st in meth.body if isinstance(st, ast.Assign) and isinstance(st.value, ast.Name) and st.value.id == vc
+                  and len(st.targets) == 1 and isinstance(st.targets[0], (ast.Tuple, ast.List))]
+        others = [n for n in ast.walk(meth) if isinstance(n, ast.Name) and n.id == vc and isinstance(n.ctx, ast.Load)]
+        ctx.need(len(unpack) == 1 and len(others) == 1, f'{F_GRAMMAR}::visit_{rname}: {vc} is not unpacked exactly once into names')
+        elts = unpack[0].targets[0].elts  # type: ignore[union-attr]
+        if len(elts) != len(members):
+            continue  # arity: reported by R4
+        member_of: Dict[str, int] = {}
+        for i, tg in enumerate(elts):
+            for x in ast.walk(tg):
+                if isinstance(x, ast.Name):
+                    if car[i]:
+                        member_of[x.id] = i
+        tainted = set(member_of)
+        origin: Dict[str, int] = dict(member_of)
+        changed = True
+        while changed:
+            changed = False
+            for n in ast.walk(meth):
+                src_names: set = set()
+                tgt_names: set = set()
+                if isinstance(n, ast.Assign) and n is not unpack[0]:
+                    src_names = {x.id for x in ast.walk(n.value) if isinstance(x, ast.Name)}
+                    tgt_names = {x.id for t in n.targets for x in ast.walk(t) if isinstance(x, ast.Name)}
+                elif isinstance(n, ast.comprehension):
+                    src_names = {x.id for x in ast.walk(n.iter) if isinstance(x, ast.Name)}
+                    tgt_names = {x.id for x in ast.walk(n.target) if isinstance(x, ast.Name)}
+                elif isinstance(n, ast.For):
+                    src_names = {x.id for x in ast.walk(n.iter) if isinstance(x, ast.Name)}
+                    tgt_names = {x.id for x in ast.walk(n.target) if isinstance(x, ast.Name)}
+                hit = src_names & tainted
+                if hit and not tgt_names <= tainted:
+                    for t_ in tgt_names - tainted:
+                        origin[t_] = min(origin[h] for h in hit)
+                    tainted |= tgt_names
+                    changed = True
+
+        def touches(e: ast.AST) -> bool:
+            return any(isinstance(x, ast.Name) and x.id in tainted for x in ast.walk(e))
+        bad: Optional[str] = None
+        for n in ast.walk(meth):
+            if bad:
+                break
+            if isinstance(n, ast.Call):
+                d = pf.dotted(n.func) or ''
+                args_touch = any(touches(a) for a in list(n.args) + [k.value for k in n.keywords])
+                if d in _REORDERING and args_touch:
+                    bad = f'`{pf.nsrc(n)[:60]}` {_REORDERING[d]} what was read from the text (field order / member order is part of the type)'
+                elif isinstance(n.func, ast.Attribute) and touches(n.func.value) and not d.startswith('types.'):
+                    if n.func.attr in _NAME_LOSSY:
+                        bad = (f'`{pf.nsrc(n)[:60]}` alters a value read from the text; inside back-ticks every character of a name is significant '
+                               f'(e.g. a name with leading / trailing blanks or capitals)')
+                    elif n.func.attr not in ('items', 'keys', 'values', 'get', 'append', 'extend', 'copy'):
+                        raise AnalysisError(f'{F_GRAMMAR}::visit_{rname}: `{pf.nsrc(n)[:60]}` on a parsed member is not a recognised operation')
+                elif args_touch and not (d.startswith('types.') or d in _VISITOR_NEUTRAL_CALLS):
+                    raise AnalysisError(f'{F_GRAMMAR}::visit_{rname}: `{pf.nsrc(n)[:60]}` on a parsed member is not a recognised operation')
+            elif isinstance(n, ast.Subscript) and isinstance(n.slice, ast.Slice) and touches(n.value):
+                bad = f'`{pf.nsrc(n)[:60]}` keeps only a slice of what was read from the text (arity is part of the type)'
+            elif isinstance(n, ast.comprehension) and n.ifs and touches(n.iter):
+                bad = f'the comprehension over `{pf.nsrc(n.iter)[:40]}` filters what was read from the text'
+        if not bad:
+            loaded = {x.id for x in ast.walk(meth) if isinstance(x, ast.Name) and isinstance(x.ctx, ast.Load)}
+            for nm, i in member_of.items():
+                if nm not in loaded:
+                    bad = (f'the member `{nm}` (position {i} of rule `{rname}`: {_show_expr(members[i])}) is read from the text but never used: the printed '
+                           f'information is dropped')
+                    break
+        if not bad:
+            for n in ast.walk(meth):
+                if isinstance(n, ast.Return) and isinstance(n.value, ast.Call) and (pf.dotted(n.value.func) or '').startswith('types.'):
+                    idxs = [origin[a.id] for a in n.value.args if isinstance(a, ast.Name) and a.id in origin]
+                    if idxs != sorted(idxs):
+                        bad = (f'`{pf.nsrc(n)[:70]}` passes the members in the order {idxs}, not in reading order: the printer shows the constructor arguments '
+                               f'in parameter order, so they come back swapped')
+                    if any(k.arg is not None for k in n.value.keywords) and any(isinstance(k.value, ast.Name) and k.value.id in origin for k in n.value.keywords):
+                        raise AnalysisError(f'{F_GRAMMAR}::visit_{rname}: keyword arguments in `{pf.nsrc(n)[:60]}` are not analysed')
+        ctx.check(bad is None, 'R8', cons, f'visit_{rname}: {bad}', mg.path, meth.lineno, detail={'members': sum(car)})
+
+
+def _show_expr(e: tuple) -> str:
+    k = e[0]
+    if k == 'ref':
+        return e[1]
+    if k == 'lit':
+        return repr(e[1])
+    if k == 're':
+        return f'~{e[1]!r}'
+    if k in ('seq', 'alt'):
+        return '(' + (' ' if k == 'seq' else ' / ').join(_show_expr(x) for x in e[1]) + ')'
+    return _show_expr(e[1]) + {'opt': '?', 'star': '*', 'plus': '+', 'not': '!', 'and': '&'}.get(k, '')
+
+
+def check_printer_param_order(ctx: Ctx, mt: pf.Module, classes: Dict[str, ast.ClassDef], sk: Skeleton) -> Dict[str, List[tuple]]:
+    """`__str__` shows the constructor parameters in parameter order (fixed-arity constructors).  Returns the __str__ templates."""
+    templates: Dict[str, List[tuple]] = {}
+    for cname, c in classes.items():
+        meth = _method(c, '__str__')
+        if meth is None or cname == 'tvariable':
+            continue
+        parts = sk.of_return(meth)
+        templates[cname] = parts
+        eng_children = [p_[2] for p_ in _all_holes(parts) if p_[1] == 'TYPE' and len(p_) > 3 and p_[3] == 'engine']
+        ctx.need(not eng_children, f'{F_TYPES}::{cname}.__str__ prints the child `{eng_children[0] if eng_children else ""}` with _parsable_string(); mixed syntax is reported by R4')
+        holes = [(cat, key) for cat, key in hole_keys(parts) if not cat.endswith('*')]
+        init = _method(c, '__init__')
+        if not holes or init is None or init.args.vararg or init.args.kwarg:
+            continue
+        params = [a.arg for a in init.args.args][1:]
+        # attribute -> parameter: `self._x = <expr over one parameter>` in __init__; a property returns one attribute
+        attr_param: Dict[str, str] = {}
+        for n in ast.walk(init):
+            if isinstance(n, ast.Assign) and len(n.targets) == 1 and isinstance(n.targets[0], ast.Attribute) and isinstance(n.targets[0].value, ast.Name) \
+                    and n.targets[0].value.id == 'self':
+                used = [x.id for x in ast.walk(n.value) if isinstance(x, ast.Name) and x.id in params]
+                if len(set(used)) == 1:
+                    attr_param.setdefault(n.targets[0].attr, used[0])
+        prop_attr: Dict[str, str] = {}
+        for st in c.body:
+            if isinstance(st, ast.FunctionDef) and 'property' in pf.decorator_names(st):
+                rets = [r for r in ast.walk(st) if isinstance(r, ast.Return) and r.value is not None]
+                attrs = {x.attr for r in rets for x in ast.walk(r.value) if isinstance(x, ast.Attribute) and isinstance(x.value, ast.Name) and x.value.id == 'self'}
+                if len(attrs) == 1:
+                    prop_attr[st.name] = next(iter(attrs))
+        order: List[int] = []
+        for cat, key in holes:
+            cand = [key, '_' + key, prop_attr.get(key, ''), '_rg' if key == 'reference_genome' else '']
+            pm = next((attr_param[a] for a in cand if a in attr_param), key if key in params else None)
+            ctx.need(pm is not None, f'{F_TYPES}::{cname}.__str__: the hole `{key}` cannot be traced to a constructor parameter')
+            order.append(params.index(pm))  # type: ignore[arg-type]
+        ctx.check(order == sorted(order), 'R8', f'{F_TYPES}::{cname}.__str__::shows the constructor parameters in parameter order',
+                  f'{cname}.__str__ shows {[k for _c, k in holes]} but {cname}.__init__ takes {params}: the grammar reads the members in text order and the visitor '
+                  f'passes them positionally, so the parsed type has them swapped', mt.path, meth.lineno, detail={'holes': [k for _c, k in holes]})
+    return templates
+
+
+# --------------------------------------------------------------------------------------
+# R9 (static): sibling agreement between the engine-facing printer template and the engine parser's arm, constructor by constructor
+# --------------------------------------------------------------------------------------
+
+
+class EngineArms:
+    """The token-reading scripts of IRParser.type_expr's arms and helpers, extracted fail-closed from Parser.scala."""
+
     _STEP = [
         (re.compile(r'punctuation\(it, "(.)"\)\s*'), lambda m: ('punct', m.group(1))),
         (re.compile(r'val (\w+) = type_expr\(it\)\s*'), lambda m: ('type', m.group(1))),
@@ -2491,6 +2385,22 @@ class EngineModel:
          lambda m: ('repsep', m.group(1), m.group(2), m.group(3), m.group(4))),
         (re.compile(r'while \(it\.hasNext && it\.head == PunctuationToken\("(.)"\)\) (\w+)\(it\): Unit\s*'), lambda m: ('while_punct', m.group(1), m.group(2))),
     ]
+
+    def __init__(self, ctx: Ctx, tokens: List[str], cases: Dict[str, str]):
+        self.cases = cases
+        ctx.need(len(tokens) == 5 and tokens[4].endswith('.r'), f'{F_PARSER}::IRLexer.token: alternatives changed ({tokens})')
+        self.punct = re.compile(S.scala_string_value(tokens[4][:-2], F_PARSER))
+        src = S.load(F_PARSER)
+        self.src, self.pspan = src, src.find_object('IRParser')
+        _st, lo, hi, _sig = src.find_def('type_expr', self.pspan, signature_contains='it: TokenIterator')
+        head = src.norm(lo, hi).split('identifier(it) match')[0]
+        self.skip_plus = 'case x: PunctuationToken if x.value == "+" => punctuation(it, "+")' in head
+        ctx.need(self.skip_plus or 'punctuation' not in head, f'{F_PARSER}::IRParser.type_expr: prelude `{head[:80]}` not recognised')
+        rs = [src.norm(lo2, hi2) for _s, lo2, hi2, _g in src.find_defs('repsepUntil', self.pspan)]
+        ctx.need(rs == ['{ val xs = ArraySeq.newBuilder[T] while (it.hasNext && it.head != end) { xs += f(it) if (it.head == sep) consumeToken(it): Unit } xs.result() }'],
+                 f'{F_PARSER}::IRParser.repsepUntil changed; its model does not apply')
+        self._scripts: Dict[str, Tuple[List[tuple], str]] = {}
+        self._helpers: Dict[str, List[tuple]] = {}
 
     def _script(self, text: str, where: str) -> Tuple[List[tuple], str]:
         t = text.strip()
@@ -2511,260 +2421,209 @@ class EngineModel:
         return steps, t
 
     def arm(self, kw: str) -> Tuple[List[tuple], str]:
-        if kw not in self.scripts:
-            self.scripts[kw] = self._script(self.cases[kw], f'IRParser.type_expr case "{kw}"')
-        return self.scripts[kw]
+        if kw not in self._scripts:
+            self._scripts[kw] = self._script(self.cases[kw], f'IRParser.type_expr case "{kw}"')
+        return self._scripts[kw]
 
-    def helper(self, name: str) -> Tuple[List[tuple], str]:
-        if name not in self.helpers:
+    def helper(self, name: str) -> List[tuple]:
+        if name not in self._helpers:
             defs = self.src.find_defs(name, self.pspan)
             if len(defs) != 1:
                 raise AnalysisError(f'{F_PARSER}::IRParser.{name}: expected one definition, found {len(defs)}')
             body = self.src.norm(defs[0][1], defs[0][2])
             m = re.fullmatch(r'(\w+)\(type_expr\)\(it\)', body.strip())
+            name2 = name
             if m:
                 d2 = self.src.find_defs(m.group(1), self.pspan)
                 if len(d2) != 1 or '(f: TokenIterator => T)(it: TokenIterator)' not in d2[0][3]:
                     raise AnalysisError(f'{F_PARSER}::IRParser.{m.group(1)}: signature not recognised')
                 body = self.src.norm(d2[0][1], d2[0][2])
                 name2 = m.group(1)
+            self._helpers[name] = self._script(body, f'IRParser.{name2}')[0]
+        return self._helpers[name]
+
+    # ---- the printer template as the token kinds the lexer would produce
+    def tokens_of(self, lit: str, where: str) -> List[tuple]:
+        out: List[tuple] = []
+        i = 0
+        while i < len(lit):
+            if lit[i].isspace():
+                i += 1
+                continue
+            m = re.compile(r'[A-Za-z_][A-Za-z_0-9]*').match(lit, i)
+            if m:
+                out.append(('kw', m.group()))
+                i = m.end()
+                continue
+            m = self.punct.match(lit, i)
+            if m:
+                out.append(('punct', m.group()))
+                i = m.end()
+                continue
+            raise EngineMismatch(f'the template text {lit[i:i + 8]!r} is neither an identifier nor a punctuation token of IRLexer ({self.punct.pattern})')
+        return out
+
+    def items_of(self, parts: List[tuple], where: str) -> List[tuple]:
+        out: List[tuple] = []
+        lit = ''
+        for p_ in parts:
+            if p_[0] == 'lit':
+                lit += p_[1]
+                continue
+            if p_[0] == 'ws':
+                lit += ' '
+                continue
+            out += self.tokens_of(lit, where)
+            lit = ''
+            if p_[0] == 'hole':
+                out.append(({'TYPE': 'type', 'NAT': 'nat', 'NAME': 'name', 'RAWNAME': 'name'}[p_[1]],))
             else:
-                name2 = name
-            self.helpers[name] = self._script(body, f'IRParser.{name2}')
-        return self.helpers[name]
+                out.append(('rep', self.tokens_of(p_[1], where), self.items_of(p_[2], where)))
+        out += self.tokens_of(lit, where)
+        return out
 
-    def parse_type(self, toks: List[Tuple[str, Any]], pos: int, depth: int = 0) -> Tuple[tuple, int]:
-        if depth > 40:
-            raise AnalysisError('engine model: nesting too deep')
-        if self.skip_plus and pos < len(toks) and toks[pos] == ('punct', '+'):
-            pos += 1
-        if pos >= len(toks):
-            raise EngineReject('No more tokens to consume.')
-        k, v = toks[pos]
-        if k != 'id':
-            raise EngineReject(f'Expected identifier but found {k} {v!r}')
-        if v not in self.cases:
-            raise EngineReject(f'scala.MatchError: type_expr has no case "{v}"')
-        steps, result = self.arm(v)
-        items, pos = self._run(steps, toks, pos + 1, depth)
-        return (v, items), pos
-
-    def _run(self, steps: List[tuple], toks: List[Tuple[str, Any]], pos: int, depth: int) -> Tuple[List[tuple], int]:
-        items: List[tuple] = []
-
-        def take() -> Tuple[str, Any]:
-            nonlocal pos
-            if pos >= len(toks):
-                raise EngineReject('No more tokens to consume.')
-            tk = toks[pos]
-            pos += 1
-            return tk
+    def match(self, items: List[tuple], steps: List[tuple], i: int = 0) -> int:
+        """Consume `items` with the arm script; returns the index after the script (EngineMismatch on disagreement)."""
+        def at(j: int) -> str:
+            return _show_item(items[j]) if j < len(items) else 'the end of the text'
         for st in steps:
             if st[0] == 'punct':
-                tk = take()
-                if tk != ('punct', st[1]):
-                    raise EngineReject(f"Expected punctuation '{st[1]}' but found {tk[0]} {tk[1]!r}")
-            elif st[0] == 'type':
-                sub, pos = self.parse_type(toks, pos, depth + 1)
-                items.append(('type', sub))
-            elif st[0] == 'ident':
-                tk = take()
-                if tk[0] != 'id':
-                    raise EngineReject(f'Expected identifier but found {tk[0]} {tk[1]!r}')
-                items.append(('name', tk[1]))
-            elif st[0] == 'int':
-                tk = take()
-                if tk[0] != 'int' or not -2 ** 31 <= tk[1] < 2 ** 31:
-                    raise EngineReject(f'Expected int32 but found {tk[0]} {tk[1]!r}')
-                items.append(('nat', tk[1]))
+                if i >= len(items) or items[i] != ('punct', st[1]):
+                    raise EngineMismatch(f"the arm expects the punctuation '{st[1]}' where the printer emits {at(i)}")
+                i += 1
+            elif st[0] in ('type', 'ident', 'int'):
+                want = {'type': 'type', 'ident': 'name', 'int': 'nat'}[st[0]]
+                if i >= len(items) or items[i] != (want,):
+                    raise EngineMismatch(f'the arm reads {"a type" if want == "type" else "an identifier" if want == "name" else "an int32 literal"} (`{st[1]}`) where the printer emits {at(i)}')
+                i += 1
             elif st[0] == 'repsep':
                 _n, fname, sep, end = st[1:]
-                while pos < len(toks) and toks[pos] != ('punct', end):
-                    if fname == 'type_expr':
-                        sub, pos = self.parse_type(toks, pos, depth + 1)
-                        items.append(('type', sub))
-                    else:
-                        hsteps, _res = self.helper(fname)
-                        sub_items, pos = self._run(hsteps, toks, pos, depth + 1)
-                        items += sub_items
-                    if pos >= len(toks):
-                        raise EngineReject('NoSuchElementException: it.head after the last token')
-                    if toks[pos] == ('punct', sep):
-                        pos += 1
-            elif st[0] == 'while_punct':
-                if pos < len(toks) and toks[pos] == ('punct', st[1]):
-                    raise AnalysisError(f'engine model: `{st[1]}` decorators are not modelled')
-            else:
-                raise AnalysisError(f'engine model: step {st}')
-        return items, pos
-
-    def read(self, text: str) -> tuple:
-        toks = self.tokenize(text)
-        tree, pos = self.parse_type(toks, 0)
-        if pos != len(toks):
-            raise EngineReject(f'{len(toks) - pos} token(s) left after the type: {toks[pos][1]!r} ...')
-        return tree
-
-
-def _from_utf16(units: List[int]) -> str:
-    out = []
-    i = 0
-    while i < len(units):
-        u = units[i]
-        if 0xD800 <= u <= 0xDBFF and i + 1 < len(units) and 0xDC00 <= units[i + 1] <= 0xDFFF:
-            out.append(chr(0x10000 + ((u - 0xD800) << 10) + (units[i + 1] - 0xDC00)))
-            i += 2
-        else:
-            out.append(chr(u))
-            i += 1
-    return ''.join(out)
-
-
-def python_tree(G: P.Grammar, ses: Session, text: str) -> tuple:
-    """(rule, items) of the Python grammar's reading of `text`: items in textual order: ('type', subtree) ('name', str) ('nat', int|str)."""
-    root = P.parsimonious_tree(G, text)
-
-    def alt_of(tn: P.PNode) -> tuple:
-        cand = [c for c in tn.children if not c.expr_name and c.children]
-        if tn.expr_name != 'type' or len(cand) != 1 or len(cand[0].children) != 1 or not cand[0].children[0].expr_name:
-            raise AnalysisError(f'{F_GRAMMAR}: node of rule `type` is not `_ (alternative) _`')
-        a = cand[0].children[0]
-        items: List[tuple] = []
-
-        def walk(n: P.PNode) -> None:
-            for c in n.children:
-                if c.expr_name == 'type':
-                    items.append(('type', alt_of(c)))
-                elif c.expr_name == 'identifier':
-                    try:
-                        v = ses.it.eval_src(F_GRAMMAR, 'type_node_visitor.visit(n)', {'n': _PNodeV(c)})
-                    except C.PyRaise as r:
-                        raise AnalysisError(f'{F_GRAMMAR}: visiting the identifier {c.text!r} raises {r}') from None
-                    items.append(('name', v))
-                elif c.expr_name == 'nat':
-                    tx = c.text.strip()
-                    items.append(('nat', int(tx) if tx.isdigit() else tx))
+                elem_steps = [('type', 'element')] if fname == 'type_expr' else self.helper(fname)
+                if i < len(items) and items[i][0] == 'rep':
+                    _r, sep_toks, elem = items[i]
+                    if sep_toks != [('punct', sep)]:
+                        raise EngineMismatch(f"the arm separates the elements with '{sep}' but the printer joins them with {''.join(t[1] for t in sep_toks)!r}")
+                    j = self.match(elem, elem_steps, 0)
+                    if j != len(elem):
+                        raise EngineMismatch(f'one printed element continues with {_show_item(elem[j])} after what `{fname}` reads')
+                    i += 1
                 else:
-                    walk(c)
-        walk(a)
-        return (a.expr_name, items)
-    return alt_of(root)
+                    while i < len(items) and items[i] != ('punct', end):
+                        i = self.match(items, elem_steps, i)
+                        if i < len(items) and items[i] == ('punct', sep):
+                            i += 1
+            elif st[0] == 'while_punct':
+                if i < len(items) and items[i] == ('punct', st[1]):
+                    raise AnalysisError(f"engine model: '{st[1]}' decorators are not modelled")
+        return i
 
 
-def check_engine_reading(ctx: Ctx, mt: pf.Module, classes: Dict[str, ast.ClassDef], G: P.Grammar, ses: Session, sm: Samples, eng: EngineModel,
-                         name_ok) -> None:
-    it = ses.it
-    tm = it.module(F_TYPES)
-    recorded: List[str] = []
-    orig = it.global_lookup(tm, 'escape_parsable')
+class EngineMismatch(Exception):
+    pass
 
-    def spy(it2, a, k):
-        if len(a) == 1 and isinstance(a[0], str):
-            recorded.append(a[0])
-        return it2.call(orig, a, k)
-    kwmap: Dict[str, str] = {}
-    kwrev: Dict[str, str] = {}
-    per_class: Dict[str, Tuple[int, Optional[str]]] = {}
-    skipped_known = 0
 
-    def compare(pt: tuple, et: tuple, path: str) -> Optional[str]:
-        prule, pitems = pt
-        ekw, eitems = et
-        if kwmap.setdefault(prule, ekw) != ekw:
-            return f'at {path}: the Python form `{prule}` is printed for the engine as {ekw!r} here but as {kwmap[prule]!r} elsewhere'
-        if kwrev.setdefault(ekw, prule) != prule:
-            return f'at {path}: the engine keyword {ekw!r} stands for the Python form `{prule}` here but for `{kwrev[ekw]}` elsewhere'
-        if [x[0] for x in pitems] != [x[0] for x in eitems]:
-            return (f'at {path}: str() lists {[x[0] for x in pitems]} under `{prule}` but the engine reads {[x[0] for x in eitems]} under {ekw!r}')
-        for i, (a, b) in enumerate(zip(pitems, eitems)):
-            if a[0] == 'type':
-                r = compare(a[1], b[1], f'{path}/{prule}[{i}]')
-                if r:
-                    return r
-            elif a[1] != b[1]:
-                return f'at {path}: member {i} of `{prule}` is the {a[0]} {a[1]!r} in str() but the engine reads {b[1]!r}'
-        return None
+def _show_item(it: tuple) -> str:
+    if it[0] in ('punct', 'kw'):
+        return repr(it[1])
+    if it[0] == 'rep':
+        return 'a joined list'
+    return {'type': 'a child type', 'name': 'a name', 'nat': 'a number'}[it[0]]
 
-    it.set_global(tm, 'escape_parsable', C.Builtin('escape_parsable', spy))
-    try:
-        for cname, desc, t in sm.all():
-            c = classes.get(cname)
-            n, fail = per_class.get(cname, (0, None))
-            if fail is not None:
-                continue
-            meth = None
-            if c is not None:
-                meth = _method(c, '_parsable_string')
-                body = [s_ for s_ in meth.body if not (isinstance(s_, ast.Expr) and isinstance(s_.value, ast.Constant))] if meth is not None else []
-                if meth is None or (len(body) == 1 and isinstance(body[0], ast.Raise)):
+
+def check_engine_templates(ctx: Ctx, mt: pf.Module, classes: Dict[str, ast.ClassDef], sk2: Skeleton, str_templates: Dict[str, List[tuple]], arms: EngineArms) -> None:
+    used_kw: Dict[str, str] = {}
+    for cname, c in classes.items():
+        meth = _method(c, '_parsable_string')
+        if meth is None:
+            continue
+        body = [s for s in meth.body if not (isinstance(s, ast.Expr) and isinstance(s.value, ast.Constant))]
+        if len(body) == 1 and isinstance(body[0], ast.Raise):
+            continue
+        parts = sk2.of_return(meth)
+        cons = f'{F_TYPES}::{cname}._parsable_string::template agrees with the arm of IRParser.type_expr, token by token'
+        why: Optional[str] = None
+        py_children = [p_[2] for p_ in _all_holes(parts) if p_[1] == 'TYPE' and len(p_) > 3 and p_[3] != 'engine']
+        if py_children:
+            ctx.bad('R9', cons, f'{cname}._parsable_string() = {_render(parts)} prints the child type `{py_children[0]}` with str() (Python syntax such as '
+                    f'locus<GRCh38>, struct{{...}}) inside the engine-facing form instead of its _parsable_string(): the engine parser has no such keywords', mt.path, meth.lineno)
+            continue
+        try:
+            items = arms.items_of(parts, cname)
+            if arms.skip_plus and items[:1] == [('punct', '+')]:
+                items = items[1:]
+            if not items or items[0][0] != 'kw':
+                why = f'the template starts with {_show_item(items[0]) if items else "nothing"}, not with a type keyword'
+            elif items[0][1] not in arms.cases:
+                if cname == '_trngstate':
+                    ctx.ok('R9', cons, 'keyword has no parser arm (see INFO under R6)', nontrivial=False)
                     continue
-            del recorded[:]
-            try:
-                etext = ses.expr('t._parsable_string()', t=t)
-                ptext = ses.expr('str(t)', t=t)
-            except C.PyRaise as r:
-                if r.name == 'NotImplementedError':
-                    continue
-                per_class[cname] = (n + 1, f'for t = {desc}, t._parsable_string() raises {r.name}{r.pargs!r}')
-                continue
-            if not all(name_ok(x) for x in recorded):
-                skipped_known += 1
-                continue
-            if cname == '_trngstate':
-                continue
-            try:
-                et = eng.read(etext)
-            except EngineReject as ex:
-                per_class[cname] = (n + 1, f'for t = {desc}, t._parsable_string() = {ascii(etext)} is rejected by the engine: {ex}')
-                continue
-            try:
-                pt = python_tree(G, ses, ptext)
-            except P.ParseFailure:
-                continue  # str(t) does not parse with the Python grammar: reported by R4 / R8
-            why = compare(pt, et, 't')
-            per_class[cname] = (n + 1, None if why is None else f'for t = {desc}: str(t) = {ascii(ptext)}, t._parsable_string() = {ascii(etext)}; {why}')
-    finally:
-        it.set_global(tm, 'escape_parsable', orig)
-    for cname, (n, fail) in per_class.items():
-        line = classes[cname].lineno if cname in classes else 0
-        ctx.check(fail is None, 'R9', f'{F_TYPES}::{cname}._parsable_string::IRParser.type_expr reads the same structure and names as the Python grammar reads str()',
-                  fail or '', mt.path, line, detail={'samples': n})
-    # arms: constructor arguments in reading order
-    for kw in sorted(set(kwrev)):
-        steps, result = eng.arm(kw)
+                why = f'IRParser.type_expr has no case "{items[0][1]}"'
+            else:
+                kw = items[0][1]
+                used_kw[kw] = cname
+                steps, _res = arms.arm(kw)
+                j = arms.match(items, steps, 1)
+                if j != len(items):
+                    why = f'after the arm `case "{kw}"` has finished, the printer still emits {_show_item(items[j])}'
+        except EngineMismatch as ex:
+            why = str(ex)
+        ctx.check(why is None, 'R9', cons, f'{cname}._parsable_string() = {_render(parts)}: {why}', mt.path, meth.lineno)
+        # the two printers show the same things in the same order
+        if cname in str_templates:
+            a, b = hole_keys(str_templates[cname]), hole_keys(parts)
+            ctx.check(a == b, 'R9', f'{F_TYPES}::{cname}::__str__ and _parsable_string show the same members in the same order',
+                      f'{cname}.__str__ shows {[k for _c, k in a]} but {cname}._parsable_string shows {[k for _c, k in b]}: the engine is told a different type than '
+                      f'the one Python prints (e.g. key and value type swapped)', mt.path, meth.lineno)
+    for kw in sorted(used_kw):
+        steps, result = arms.arm(kw)
         vals = [st[1] for st in steps if st[0] in ('type', 'ident', 'int', 'repsep')]
         m = re.search(r'(T\w+)\(([^()]*(?:\([^()]*\))?[^()]*)\)\s*$', result)
         if len(vals) < 2 or not m:
             continue
         used = [v for v in re.findall(r'\b\w+\b', m.group(2)) if v in vals]
-        order_ok = used == [v for v in vals if v in used]
-        ctx.check(order_ok, 'R9', f'{F_PARSER}::IRParser.type_expr case "{kw}"::constructor arguments in reading order',
-                  f'the arm reads {vals} in this order but builds {m.group(0)[:60]}: the members of {kwrev[kw]} are swapped on the engine side', eng.src.rel if hasattr(eng.src, "rel") else F_PARSER, 0)
-    ctx.unit('engine_samples_skipped_for_known_escape_findings', skipped_known)
+        ctx.check(used == [v for v in vals if v in used], 'R9', f'{F_PARSER}::IRParser.type_expr case "{kw}"::constructor arguments in reading order',
+                  f'the arm reads {vals} in this order but builds {m.group(0)[:60]}: the members of {used_kw[kw]} are swapped on the engine side', F_PARSER, 0)
+
+
+def _render(parts: List[tuple]) -> str:
+    out = []
+    for p_ in parts:
+        if p_[0] == 'lit':
+            out.append(p_[1])
+        elif p_[0] == 'ws':
+            out.append(' ')
+        elif p_[0] == 'hole':
+            out.append('<' + p_[2] + '>')
+        else:
+            out.append('<' + _render(p_[2]) + f' joined by {p_[1]!r}>')
+    return ascii(''.join(out))
 
 
 def run(ctx: Ctx) -> None:
     ctx.explanation = ('Escapers are turned into unit tables (code-point range -> emitted text) and compared, as regular languages over all '
                        'Unicode code points, with the Python grammar terminals and with the engine lexer read from Parser.scala; printed '
                        'forms are parsed with our own PEG interpreter of the grammar text; hl.dtype is analysed by abstract data flow (what it returns '
-                       'is the parse of its own argument); printers, dtype and the visitor are evaluated on sample types with our own evaluator; '
-                       'the engine reading of the engine-facing forms is modelled from the extracted IRLexer / IRParser fragments. No repository code is run.')
+                       'is the parse of its own argument; memo keys from a closed table); the visitor is checked as a data path and the printer templates '
+                       'are matched symbolically against the arm scripts extracted from IRParser.type_expr. No repository code is run.')
     ctx.rule('R1', 'names emitted bare are simple_identifier of the type grammar and JavaTokenParsers.ident of the engine lexer '
                    ' (ASCII names and all names)', 5)
     ctx.rule('R2', 'every escape unit the Python side can emit between delimiters is accepted by the engine lexer quotedLiteral / by the '
                    'grammar escaped_identifier (prefix-free)', 50)
     ctx.rule('R3', 'unescape_parsable mirrors escape_parsable; struct field and reference genome names are printed through escape_parsable', 9)
     ctx.rule('R4', 'every HailType __str__ form parses back through the grammar rule whose visitor builds that class; visitor arity; every '
-                   'alternative of `type` has a visitor', 52)
+                   'alternative of `type` has a visitor; the same for the `_pretty` builders read as templates', 61)
     ctx.rule('R5', 'unescapeString maps every accepted escape unit back to the same UTF-16 code units', 35)
     ctx.rule('R6', 'the keyword of every _parsable_string form has an arm in IRParser.type_expr that consumes the punctuation printed', 18)
     ctx.rule('R7', 'what hl.dtype returns is the parse of ITS OWN argument: every return is visit(parse(arg)) or a memo entry whose key is an injective '
-                   '(parse-preserving) function of the argument and that is only written with the value parsed from the same text; the visitor keeps no '
-                   'state; printers do not remember text computed from attributes that change after construction', 22)
-    ctx.rule('R8', 'for every sample type t of every HailType class and every printer (str, pretty): hl.dtype(<printed t>) == t, evaluated with our '
-                   'interpreter in two modelled processes (sample order and reverse order)', 38)
-    ctx.rule('R9', 'IRParser.type_expr (modelled) reads t._parsable_string() of every sample in full, with the same structure, names and dimensions as '
-                   'the Python grammar reads str(t); constructor arguments of the arms are in reading order', 20)
+                   '(parse-preserving) function of the argument - decided from a closed table of key shapes and from the grammar - and that is only written '
+                   'with the value parsed from the same text; the visitor keeps no state; printers do not remember text computed from attributes that '
+                   'change after construction', 22)
+    ctx.rule('R8', 'the visitor hands every value-carrying member of a grammar rule to the constructor unaltered (no reordering, truncation, filtering or '
+                   'string normalisation), uses every such member, and passes them in reading order; __str__ shows the constructor parameters in '
+                   'parameter order', 22)
+    ctx.rule('R9', 'sibling agreement, constructor by constructor: the _parsable_string template is consumed token by token by the script of its arm in '
+                   'IRParser.type_expr; __str__ and _parsable_string show the same members in the same order; the arm passes what it reads to the '
+                   'engine constructor in reading order', 37)
     deferred: List[str] = []
     st: Dict[str, Any] = {}
 
@@ -2788,83 +2647,38 @@ def _grammar(ctx: Ctx, mg: pf.Module) -> P.Grammar:
     return P.parse_grammar(grammar_text, f'{F_GRAMMAR}::type_grammar_str')
 
 
-def _samples(ctx: Ctx, st: Dict[str, Any], mt: pf.Module, classes: Dict[str, ast.ClassDef]) -> Tuple[Session, Samples]:
-    """The modelled process A and the sample types (built once)."""
-    if 'sm' not in st:
-        if 'sm_error' in st:
-            raise AnalysisError(st['sm_error'])
-        try:
-            ses = Session()
-            st['ses'], st['sm'] = ses, Samples(ctx, ses, mt, classes)
-        except C.PyRaise as e:
-            st['sm_error'] = f'sample types cannot be built with the evaluator: {e}'
-            raise AnalysisError(st['sm_error']) from None
-        except AnalysisError as e:
-            st['sm_error'] = str(e)
-            raise
-    return st['ses'], st['sm']
-
-
 def _run_semantic(ctx: Ctx, st: Dict[str, Any]) -> None:
     mt, mg = pf.load(F_TYPES), pf.load(F_GRAMMAR)
     G = st.get('G') or _grammar(ctx, mg)
     classes = _hail_classes(ctx, mt)
     deferred: List[str] = []
-
-    def r8() -> None:
-        ses, sm = _samples(ctx, st, mt, classes)
-        check_round_trip(ctx, mt, classes, ses, sm)
+    box: Dict[str, Any] = {}
 
     def r7() -> None:
-        ses, sm = _samples(ctx, st, mt, classes)
-        battery = []
-        for cname, desc, t in sm.all():
-            for pname, src, how in PRINTERS:
-                try:
-                    text = ses.expr(src, t=t)
-                except C.PyRaise:
-                    continue
-                if isinstance(text, str):
-                    battery.append((text, t, desc))
-        check_parse_flow(ctx, mt, G, battery, ses)
+        check_parse_flow(ctx, mt, G)
 
     def r7p() -> None:
         check_printer_memo(ctx, mt, classes)
 
+    def r8() -> None:
+        check_visitor_flow(ctx, mg, G, mg.cls('TypeConstructor'))
+
+    def r8p() -> None:
+        sk = Skeleton(mt, Templates(ctx, mt, ['int32'], ['a']))
+        box['str_templates'] = check_printer_param_order(ctx, mt, classes, sk)
+
     def r9() -> None:
-        ses, sm = _samples(ctx, st, mt, classes)
-        lex, ident, tokens, arms = S.irlexer_quoted_literal(), S.irlexer_identifier(), S.irlexer_token_order(), S.unescape_string_arms()
-        L_java, _origin = java_ident_language(ctx)
-        eng = EngineModel(ctx, lex, ident, tokens, arms, L_java, S.irparser_type_cases())
-        if 'units_p' in st and 'acc_p' in st:
-            flat = split_by_width(st['units_p'])
-            acc = st['acc_p']
+        arms = EngineArms(ctx, S.irlexer_token_order(), S.irparser_type_cases())
+        sk2 = Skeleton(mt, Templates(ctx, mt, ['Int32'], ['a']))
+        check_engine_templates(ctx, mt, classes, sk2, box.get('str_templates', {}), arms)
 
-            def name_ok(n: str) -> bool:
-                for ch in n:
-                    u = next((u for u in flat if u.lo <= ord(ch) <= u.hi), None)
-                    if u is None or not acc.get(u.kind(), False):
-                        return False
-                return True
-        else:
-            def name_ok(n: str) -> bool:
-                return all(0x20 <= ord(ch) < 0x7f for ch in n)
-        check_engine_reading(ctx, mt, classes, G, ses, sm, eng, name_ok)
-
-    for f in (r7p, r8, r7, r9):
+    for f in (r7p, r7, r8, r8p, r9):
         try:
             f()
-        except C.PyRaise as e:
-            deferred.append(f'the evaluator met an unexpected exception of the interpreted code: {e}')
-        except P.ParseFailure as e:
-            deferred.append(f'unexpected parse failure outside a round-trip check: {e}')
-        except RecursionError:
-            deferred.append('evaluator recursion limit')
         except AnalysisError as e:
             deferred.append(str(e))
     if deferred:
         raise AnalysisError(' | '.join(deferred))
-
 
 def _run_lexical(ctx: Ctx, state: Dict[str, Any]) -> None:
     ctx.assume('regex terminals of type_grammar follow stdlib `re` semantics (parsimonious >= 0.10 uses the third-party `regex` module, whose \\w '
@@ -2872,9 +2686,8 @@ def _run_lexical(ctx: Ctx, state: Dict[str, Any]) -> None:
     ctx.assume('JavaTokenParsers.ident = rep1(acceptIf(Character.isJavaIdentifierStart), elem(Character.isJavaIdentifierPart)) on UTF-16 chars '
                '(scala-parser-combinators), and is tried after skipping \\s+')
     ctx.assume('str.encode(\'unicode_escape\') encodes character by character (the table is cut out of the encoding of the string of all code points)')
-    ctx.assume('reference genomes are identified by their registered name: str(rg) == rg.name, get_reference(name).name == name (hail.genetics.reference_genome)')
-    ctx.assume('parsimonious builds one node per matched expression (sequence: a child per member; ordered choice: the matched alternative; optional / '
-               'repetition: the matches) and NodeVisitor.visit calls visit_<rule name> (else generic_visit) bottom-up')
+    ctx.assume('parsimonious passes one visited child per member of a sequence rule, in order, and NodeVisitor.visit calls visit_<rule name> (else generic_visit) '
+               'bottom-up; a rule without a visit method yields no value')
     mj, mm, mt, mg = pf.load(F_JAVA), pf.load(F_MISC), pf.load(F_TYPES), pf.load(F_GRAMMAR)
     ctx.unit('files', 6)
 
@@ -3143,14 +2956,7 @@ def _run_lexical(ctx: Ctx, state: Dict[str, Any]) -> None:
             if cname in ('tvariable',):
                 ctx.info(f'{cname}.__str__ is not a single template; not covered ({e})')
                 continue
-            # not a single template: print sample instances with the evaluator instead
-            ses_, sm_ = _samples(ctx, state, mt, classes)
-            if cname not in sm_.by_class:
-                raise
-            try:
-                samples = [ses_.expr('str(t)', t=t_) for _d, t_ in sm_.by_class[cname]]
-            except C.PyRaise as r_:
-                raise AnalysisError(f'{F_TYPES}::{cname}.__str__ raises {r_} on a sample') from None
+            raise
         wrong = None
         for text in samples:
             n_samples += 1
@@ -3163,18 +2969,44 @@ def _run_lexical(ctx: Ctx, state: Dict[str, Any]) -> None:
             rname = chosen.label if chosen is not None else None
             built = rule_class.get(rname or '')
             if built is None:
-                # the visitor's returns are not all `types.X(...)`: let the evaluator say what it builds for this text
-                ses_, _sm = _samples(ctx, state, mt, classes)
-                obj, err = true_parse(ses_, text)
-                if err is not None:
-                    wrong = f'the printed form {ascii(text)} is read by the alternative `{rname}`, whose visitor raises {err}'
-                    break
-                built = obj.cls.name if isinstance(obj, C.Inst) else type(obj).__name__
+                raise AnalysisError(f'{F_GRAMMAR}::visit_{rname}: its returns are not all `types.X` / `types.X(...)`; the class it builds is not decided')
             if built != cname:
                 wrong = (f'the printed form {ascii(text)} is parsed by the alternative `{rname}`, whose visitor builds '
                          f'{built}, not {cname} (ordered choice commits to the first alternative that matches)')
                 break
         ctx.check(wrong is None, 'R4', cons, wrong or '', mt.path, meth.lineno, detail={'samples': len(samples)})
+    # pretty(): the `_pretty` builders, read as templates (pieces appended in order; loops with a separator are joins), instantiated and parsed alike
+    sk_pretty = Skeleton(mt, T)
+    for cname, c in classes.items():
+        meth = _method(c, '_pretty')
+        if meth is None:
+            continue
+        cons = f'{F_TYPES}::{cname}._pretty::parses back as {cname}'
+        wrong = None
+        n_forms = 0
+        for parts in sk_pretty.of_pretty(cname, meth):
+            for text0 in instantiate(parts, type_samples, ident_samples):
+                for text in (text0, '  ' + text0):
+                    n_samples += 1
+                    n_forms += 1
+                    try:
+                        node = G.parse(text)
+                    except P.ParseFailure as e:
+                        wrong = f'the pretty form {ascii(text)} does not parse with type_grammar ({e})'
+                        break
+                    chosen = node.first_rule_below()
+                    rname = chosen.label if chosen is not None else None
+                    built = rule_class.get(rname or '')
+                    if built is None:
+                        raise AnalysisError(f'{F_GRAMMAR}::visit_{rname}: its returns are not all `types.X` / `types.X(...)`; the class it builds is not decided')
+                    if built != cname:
+                        wrong = f'the pretty form {ascii(text)} is parsed by the alternative `{rname}`, whose visitor builds {built}, not {cname}'
+                        break
+                if wrong:
+                    break
+            if wrong:
+                break
+        ctx.check(wrong is None, 'R4', cons, wrong or '', mt.path, meth.lineno, detail={'forms': n_forms})
     ctx.unit('printed_forms_parsed', n_samples)
 
     # ------------------------------------------------------------------ R6
@@ -3211,14 +3043,7 @@ def _run_lexical(ctx: Ctx, state: Dict[str, Any]) -> None:
         if len(body) == 1 and isinstance(body[0], ast.Raise):
             continue
         cons = f'{F_TYPES}::{cname}._parsable_string::engine syntax'
-        try:
-            samples = T2.samples(meth)
-        except AnalysisError:
-            ses_, sm_ = _samples(ctx, state, mt, classes)
-            if cname not in sm_.by_class:
-                raise
-            ctx.ok('R6', cons, 'not a single template: the engine reading of its evaluated samples is decided under R9', nontrivial=False)
-            continue
+        samples = T2.samples(meth)
         text = max(samples, key=len)
         if text.startswith('+') and 'case x: PunctuationToken if x.value == "+" => punctuation(it, "+")' in psrc.norm(*psrc.find_def('type_expr', pspan, signature_contains='it: TokenIterator')[1:3]):
             text = text[1:]  # type_expr skips a leading requiredness marker
